@@ -1346,7 +1346,8 @@ Section RT.
     first [ assumption | exact numterm_sp | exact numterm_lf | exact ws32 | exact ws_def
           | exact punct_semi | exact punct_colon | exact punct_comma | exact punct_minus | exact punct_quote
           | match goal with |- punct ?p => exact (proj1 (punct_of p ltac:(cbn; tauto))) end
-          | reflexivity | lia | (unfold ascii; lia) | discriminate ].
+          | reflexivity | lia | (unfold ascii; lia) | discriminate
+          | (unfold kw_nodes, kw_message, kw_signal, kw_envvar; cbn [length]; lia) ].
 
   (** the final " ;" followed by the line end: the parser is left at the start of the next line (shape A) *)
   Lemma semi_tail : forall rest last P line K ll, (1 <= F)%nat -> 0 <= K ->
@@ -1478,15 +1479,15 @@ Section RT.
   Qed.
 
   (** the first token of a value description is a number or a minus sign *)
-  Lemma value_peek : forall v c r last pos l k ll, wf_value v -> ascii c -> (length (print_num (fst v)) + 3 < F)%nat -> 0 <= k ->
-    exists t st1, peek_token (PS (mkS (print_num (fst v) ++ 32 :: c :: r) last pos l k ll 32 ws_default) None) = POk t st1
+  Lemma value_peek : forall v X last pos l k ll, wf_value v -> (length (print_num (fst v)) + 3 < F)%nat -> 0 <= k ->
+    exists t st1, peek_token (PS (mkS (print_num (fst v) ++ 32 :: X) last pos l k ll 32 ws_default) None) = POk t st1
                   /\ (t_typ t = TInt \/ t_typ t = 45).
   Proof.
-    intros [[neg ds] s] c r last pos l k ll (((d0 & t & Hds & Hd & Ht & Hz) & _) & _) Hc HF Hk.
+    intros [[neg ds] s] X last pos l k ll (((d0 & t & Hds & Hd & Ht & Hz) & _) & _) HF Hk.
     cbn [fst snd n_neg n_digits] in *. subst ds. unfold print_num in *. cbn [n_neg n_digits] in *.
     destruct (decimal_ge d0 Hd) as (H33 & Ha0 & H10). rewrite peek_token_scan. destruct neg; cbn [app]; cbn [app length] in HF.
     - rewrite (scan_ws_punct 32) by side. eexists; eexists; split; [reflexivity|right; reflexivity].
-    - change (d0 :: t ++ 32 :: c :: r) with ((d0 :: t) ++ 32 :: c :: r).
+    - change (d0 :: t ++ 32 :: X) with ((d0 :: t) ++ 32 :: X).
       rewrite (scan_ws_uint 32); try assumption; [|exact ws32|exact ws_def|lia|exact numterm_sp].
       eexists; eexists; split; [reflexivity|left; reflexivity].
   Qed.
@@ -1520,7 +1521,7 @@ Section RT.
         repeat (rewrite app_length in HF || cbn [length] in HF). lia. }
       pose proof (blen_nonneg (print_num (fst v))). pose proof (blen_nonneg (snd v)).
       cbn [value_descriptions_loop]. unfold bind at 1.
-      destruct (value_peek v 34 (snd v ++ 34 :: 32 :: T') last P l K ll Hv) as (t & st1 & Ep & Hty); try side.
+      destruct (value_peek v (34 :: snd v ++ 34 :: 32 :: T') last P l K ll Hv) as (t & st1 & Ep & Hty); try side.
       rewrite Ep. assert (Ens : (t_typ t =? c_semi) = false) by (destruct Hty as [-> | ->]; reflexivity).
       rewrite Ens. cbn [negb]. unfold bind at 1. rewrite (pvd_after_peek _ _ _ Ep).
       rewrite value_desc_ws by side. rewrite stepS_plain by discriminate.
@@ -1655,7 +1656,7 @@ Section RT.
         destruct (IH f (n :: racc) T' c2 r [32] (P + 1 + blen t + 1 + 1 + 1) l (K + 1 + blen t + 1 + 1 + 1) ll (eq_sym ET') Hw' Hc2
                     ltac:(cbn in Hf; lia) ltac:(lia) ltac:(pose proof (blen_nonneg t); lia)) as (tk & E & Ety2).
         exists tk. split; [|exact Ety2]. rewrite E. cbn [rev map fst]. rewrite <- app_assoc. cbn [app]. f_equal. f_equal.
-        cbn [tx_text map concat print_tx fst snd]. fold (tx_text txs). rewrite En.
+        cbn [tx_text map concat print_tx fst snd]. fold (tx_text txs). rewrite En. unfold print_tx. cbn [fst snd].
         repeat (rewrite blen_app || rewrite blen_cons). rewrite ?blen_nil. apply stepS_eq; lia.
       + rewrite (Eqn eq_refl). unfold optional_token. unfold bind at 1.
         destruct (tx_peek txs T' c2 r [32] (P + 1 + blen t + 1) l (K + 1 + blen t + 1) ll (eq_sym ET') Hw' Hc2 ltac:(lia)
@@ -1665,7 +1666,7 @@ Section RT.
         destruct (IH f (n :: racc) T' c2 r [32] (P + 1 + blen t + 1) l (K + 1 + blen t + 1) ll (eq_sym ET') Hw' Hc2
                     ltac:(cbn in Hf; lia) ltac:(lia) ltac:(pose proof (blen_nonneg t); lia)) as (tk & E & Ety2).
         exists tk. split; [|exact Ety2]. rewrite E. cbn [rev map fst]. rewrite <- app_assoc. cbn [app]. f_equal. f_equal.
-        cbn [tx_text map concat print_tx fst snd]. fold (tx_text txs). rewrite En.
+        cbn [tx_text map concat print_tx fst snd]. fold (tx_text txs). rewrite En. unfold print_tx. cbn [fst snd].
         repeat (rewrite blen_app || rewrite blen_cons). rewrite ?blen_nil. apply stepS_eq; lia.
   Qed.
 
@@ -1689,8 +1690,8 @@ Section RT.
       assert (ET' : exists T', comma_list rs ++ 32 :: 59 :: c2 :: r = 32 :: T').
       { destruct rs as [|y rs']; cbn; eexists; reflexivity. }
       destruct ET' as (T' & ET').
-      assert (HFx : (length x + length (comma_list rs) + 8 < F)%nat).
-      { cbn [comma_list map concat] in HF. fold (comma_list rs) in HF. repeat (rewrite app_length in HF || cbn [length] in HF). lia. }
+      assert (HFx : (length x + length (comma_list rs) + 6 < F)%nat).
+      { unfold comma_list in HF |- *. cbn [map concat] in HF. repeat (rewrite app_length in HF || cbn [length] in HF). lia. }
       pose proof (blen_nonneg x) as Hnx.
       cbn [comma_idents_loop]. unfold bind at 1.
       rewrite <- app_assoc. rewrite ET'.
@@ -1702,6 +1703,904 @@ Section RT.
                   ltac:(cbn in Hf; lia) ltac:(lia) ltac:(lia)) as (tk & E & Ety2).
       exists tk. split; [|exact Ety2]. rewrite E. cbn [rev]. rewrite <- app_assoc. cbn [app]. f_equal. f_equal.
       cbn [comma_list map concat]. fold (comma_list rs). repeat (rewrite blen_app || rewrite blen_cons). apply stepS_eq; lia.
+  Qed.
+
+  (** ------------------------------------------------------------ ENVVAR_DATA_, SIG_VALTYPE_, BO_TX_BU_ *)
+
+  Ltac ready_at HR :=
+    match goal with |- Ready _ ?X _ _ => match type of HR with Ready _ ?Y _ _ => replace X with Y; [exact HR|] end end.
+
+  Lemma step_envvar_data : forall n sz rest R line off ll, wf_sdef (SEnvVarData n sz) ->
+    print_def (SEnvVarData n sz) ++ rest = kw_envvar_data ++ 32 :: R ->
+    (length (print_def (SEnvVarData n sz)) + 4 <= F)%nat ->
+    exists st', parse_envvar_data il id F (canon line off kw_envvar_data 32 R ll)
+                = POk (elab_def line off (SEnvVarData n sz)) st'
+                /\ Ready (line + 1) (off + blen (print_def (SEnvVarData n sz))) rest st'.
+  Proof.
+    intros n sz rest R line off ll (Hn & Hsz) HR HF. cbn [print_def] in *.
+    rewrite <- app_assoc in HR. apply app_inv_head in HR. cbn [app] in HR. injection HR as <-.
+    repeat (rewrite <- app_assoc; cbn [app]).
+    repeat (rewrite app_length in HF || cbn [length] in HF). unfold kw_envvar_data in HF. cbn [length] in HF.
+    pose proof (blen_nonneg n). pose proof (blen_nonneg sz). assert (Hk : blen kw_envvar_data = 12) by reflexivity.
+    unfold parse_envvar_data, canon. unfold bind at 1. rewrite p_keyword_canon. rewrite stepS_plain by discriminate.
+    unfold bind at 1. rewrite p_identifier_ws by side. rewrite stepS_plain by discriminate.
+    unfold bind at 1. rewrite p_token_ws by side. rewrite stepS_plain by discriminate.
+    unfold bind at 1. rewrite p_uint_ws by side. rewrite stepS_plain by discriminate.
+    unfold bind at 1.
+    match goal with |- context [p_token il id F c_semi (PS (mkS (59 :: 10 :: rest) ?LA ?PP ?LL ?KK ?L2 32 ws_default) None)] =>
+      destruct (finish_semi_ws rest LA PP LL KK L2 ltac:(lia) ltac:(lia)) as (st' & E & HRd) end.
+    rewrite E. unfold ret. cbn [elab_def kwtok t_pos]. exists st'. split; [reflexivity|].
+    ready_at HRd. repeat (rewrite blen_app || rewrite blen_cons). rewrite blen_nil. lia.
+  Qed.
+
+  Ltac prep HR HF kwc :=
+    cbn [print_def print_obj] in *; unfold print_quoted in *;
+    rewrite <- app_assoc in HR; apply app_inv_head in HR; cbn [app] in HR; injection HR as <-;
+    repeat (rewrite <- app_assoc; cbn [app]);
+    repeat (rewrite app_length in HF || cbn [length] in HF); unfold kwc in HF; cbn [length] in HF.
+
+  Ltac fin_ws rest :=
+    match goal with |- context [p_token il id F c_semi (PS (mkS (59 :: 10 :: rest) ?LA ?PP ?LL ?KK ?L2 32 ws_default) None)] =>
+      let st' := fresh "st'" in let E := fresh "E" in let HRd := fresh "HRd" in
+      destruct (finish_semi_ws rest LA PP LL KK L2 ltac:(lia) ltac:(lia)) as (st' & E & HRd);
+      rewrite E; unfold ret; cbn [elab_def kwtok t_pos]; exists st'; split; [|ready_at HRd] end.
+
+  Lemma scan_ws_digit : forall d c r last pos l k ll, is_decimal d = true -> numterm c -> (3 < F)%nat -> 0 <= k ->
+    sc_scan (mkS (d :: c :: r) last pos l k ll 32 ws_default)
+    = SOk ({| t_typ := TInt; t_pos := {| p_line := l; p_column := k + 1; p_offset := pos |}; t_txt := [d] |},
+           stepS c r (pos + 1) l (k + 1) ll c ws_default).
+  Proof.
+    intros d c r last pos l k ll Hd Hc HF Hk. change (d :: c :: r) with ((d :: []) ++ c :: r).
+    rewrite (scan_ws_uint 32 d [] c r last pos l k ll ws_default ws32 ws_def); try assumption;
+      [|cbn [length]; lia|apply Forall_nil|right; reflexivity].
+    rewrite blen_nil, !Z.add_0_r. reflexivity.
+  Qed.
+
+  Lemma step_sig_valtype : forall i n colon t rest R line off ll, wf_sdef (SSigValType i n colon t) ->
+    print_def (SSigValType i n colon t) ++ rest = kw_signal_value_type ++ 32 :: R ->
+    (length (print_def (SSigValType i n colon t)) + 4 <= F)%nat ->
+    exists st', parse_signal_value_type il id F (canon line off kw_signal_value_type 32 R ll)
+                = POk (elab_def line off (SSigValType i n colon t)) st'
+                /\ Ready (line + 1) (off + blen (print_def (SSigValType i n colon t))) rest st'.
+  Proof.
+    intros i n colon t rest R line off ll ((Hi & Hv) & Hn & Ht) HR HF. prep HR HF kw_signal_value_type.
+    destruct (wf_enum_uint t 2 Ht ltac:(lia)) as (_ & _ & Hlt).
+    pose proof (blen_nonneg i). pose proof (blen_nonneg n). pose proof (blen_nonneg t).
+    assert (Hk : blen kw_signal_value_type = 12) by reflexivity.
+    unfold parse_signal_value_type, canon. unfold bind at 1. rewrite p_keyword_canon. rewrite stepS_plain by discriminate.
+    unfold bind at 1. rewrite p_message_id_ws by side. rewrite stepS_plain by discriminate.
+    destruct colon; cbn [app] in *;
+      (unfold bind at 1; rewrite p_identifier_ws by side; rewrite stepS_plain by discriminate;
+       unfold bind at 1; unfold optional_token; unfold bind at 1).
+    - match goal with |- context [peek_token (PS (mkS (58 :: 32 :: ?RR) ?LA ?PP ?LL ?KK ?L2 32 ws_default) None)] =>
+        destruct (peek_ws_punct 32 58 32 RR LA PP LL KK L2 ws_default) as (tk & Ep & Ety); try side end.
+      rewrite Ep, Ety. change (58 =? c_colon) with true. cbv beta iota. rewrite (p_token_look _ tk c_colon Ety).
+      rewrite stepS_plain by discriminate.
+      unfold bind at 1. rewrite (p_small_enum_ws t 2) by side. rewrite stepS_plain by discriminate.
+      unfold bind at 1. fin_ws rest; [reflexivity|].
+      repeat (rewrite blen_app || rewrite blen_cons). rewrite ?blen_nil. lia.
+    - destruct Ht as (d & -> & Hd). cbn [app].
+      assert (Hdec : is_decimal d = true) by (unfold is_decimal; apply andb_true_iff; split; apply Z.leb_le; lia).
+      match goal with |- context [peek_token (PS ?S0 None)] =>
+        assert (Epk : exists tk S1, peek_token (PS S0 None) = POk tk (PS S1 (Some tk)) /\ t_typ tk = TInt) end.
+      { rewrite peek_token_scan. rewrite scan_ws_digit by side. eexists; eexists; split; reflexivity. }
+      destruct Epk as (tk & S1 & Epk & Ety). rewrite Epk, Ety. change (TInt =? c_colon) with false. cbv beta iota. unfold ret at 1.
+      unfold bind at 1. rewrite (small_enum_after_peek 2 _ _ _ Epk).
+      change (d :: 32 :: 59 :: 10 :: rest) with ([d] ++ 32 :: 59 :: 10 :: rest).
+      rewrite (p_small_enum_ws [d] 2); try side; [|exists d; split; [reflexivity|lia]].
+      rewrite stepS_plain by discriminate.
+      unfold bind at 1. fin_ws rest; [reflexivity|].
+      repeat (rewrite blen_app || rewrite blen_cons). rewrite ?blen_nil. lia.
+  Qed.
+
+  Lemma step_msgtx : forall i txs rest R line off ll, wf_sdef (SMsgTx i txs) ->
+    print_def (SMsgTx i txs) ++ rest = kw_message_transmitters ++ 32 :: R ->
+    (length (print_def (SMsgTx i txs)) + 4 <= F)%nat ->
+    exists st', parse_message_transmitters il id F (canon line off kw_message_transmitters 32 R ll)
+                = POk (elab_def line off (SMsgTx i txs)) st'
+                /\ Ready (line + 1) (off + blen (print_def (SMsgTx i txs))) rest st'.
+  Proof.
+    intros i txs rest R line off ll ((Hi & Hv) & Htx) HR HF. fold (tx_text txs) in *. prep HR HF kw_message_transmitters.
+    fold (tx_text txs) in *.
+    pose proof (blen_nonneg i). pose proof (blen_nonneg (tx_text txs)).
+    assert (Hk : blen kw_message_transmitters = 9) by reflexivity.
+    destruct (tx_text_head txs (59 :: 10 :: rest)) as (T & ET).
+    pose proof (sp_list_length_ge _ (fun x : bytes * bool => fst x) txs) as _.
+    assert (Hlen : (length txs <= length (tx_text txs))%nat).
+    { clear. induction txs as [|x txs IH]; cbn [tx_text map concat length]; [lia|]. fold (tx_text txs).
+      rewrite app_length. unfold print_tx. cbn [length]. lia. }
+    unfold parse_message_transmitters, canon. unfold bind at 1. rewrite p_keyword_canon. rewrite stepS_plain by discriminate.
+    unfold bind at 1. rewrite p_message_id_ws by side. rewrite stepS_plain by discriminate.
+    rewrite ET.
+    unfold bind at 1. rewrite p_token_ws by side. rewrite stepS_plain by discriminate.
+    unfold bind at 1.
+    match goal with |- context [transmitters_loop il id F F [] (PS (mkS T ?LA ?PP ?LL ?KK ?L2 32 ws_default) None)] =>
+      destruct (transmitters_run txs F [] T 10 rest LA PP LL KK L2 (eq_sym ET) Htx ltac:(unfold ascii; lia) ltac:(lia) ltac:(lia)
+                  ltac:(lia)) as (tk & E & Ety) end.
+    rewrite E. unfold bind at 1.
+    match goal with |- context [PS (stepS 10 rest ?PP ?LL ?KK ?L2 10 ws_default) (Some tk)] =>
+      destruct (finish_semi_look tk rest PP LL KK L2 Ety ltac:(lia)) as (st' & E2 & HRd) end.
+    rewrite E2. unfold ret. cbn [elab_def kwtok t_pos rev app]. exists st'. split; [reflexivity|].
+    ready_at HRd. repeat (rewrite blen_app || rewrite blen_cons). rewrite ?blen_nil. lia.
+  Qed.
+
+  (** ------------------------------------------------------------ VAL_TABLE_, VAL_, CM_, EV_ *)
+
+  Lemma values_len : forall vs, (length vs <= length (print_values vs))%nat.
+  Proof.
+    induction vs as [|v vs IH]; cbn [print_values map concat length]; [lia|]. fold (print_values vs).
+    rewrite app_length. unfold print_value. cbn [length]. lia.
+  Qed.
+
+  (** the common tail of VAL_TABLE_ and VAL_: the value list, then " ;" *)
+  Lemma values_tail : forall (G : list value_description_def -> def) vs rest T last P l K ll off,
+    32 :: T = print_values vs ++ 32 :: 59 :: 10 :: rest -> Forall wf_value vs ->
+    (length (print_values vs) + 8 < F)%nat -> K = P - off -> 0 <= K ->
+    exists st', (plet vs0 <- value_descriptions_loop il id F F []; p_token il id F c_semi ;; ret (G vs0))
+                  (PS (mkS T last P l K ll 32 ws_default) None)
+                = POk (G (elab_values l off P vs)) st'
+                /\ Ready (l + 1) (P + blen (print_values vs) + 1 + 1) rest st'.
+  Proof.
+    intros G vs rest T last P l K ll off HT Hw HF HK HK0. pose proof (values_len vs) as Hl.
+    destruct (values_run vs F [] T 10 rest last P l K ll off HT Hw ltac:(unfold ascii; lia) ltac:(lia) HF HK HK0) as (tk & E & Ety).
+    unfold bind at 1. rewrite E. unfold bind at 1.
+    match goal with |- context [PS (stepS 10 rest ?PP ?LL ?KK ?L2 10 ws_default) (Some tk)] =>
+      destruct (finish_semi_look tk rest PP LL KK L2 Ety ltac:(lia)) as (st' & E2 & HRd) end.
+    rewrite E2. unfold ret. cbn [rev app]. exists st'. split; [reflexivity|exact HRd].
+  Qed.
+
+  Lemma step_value_table : forall n vs rest R line off ll, wf_sdef (SValueTable n vs) ->
+    print_def (SValueTable n vs) ++ rest = kw_value_table ++ 32 :: R ->
+    (length (print_def (SValueTable n vs)) + 4 <= F)%nat ->
+    exists st', parse_value_table il id F (canon line off kw_value_table 32 R ll)
+                = POk (elab_def line off (SValueTable n vs)) st'
+                /\ Ready (line + 1) (off + blen (print_def (SValueTable n vs))) rest st'.
+  Proof.
+    intros n vs rest R line off ll (Hn & Hvs) HR HF. prep HR HF kw_value_table.
+    pose proof (blen_nonneg n). pose proof (blen_nonneg (print_values vs)).
+    assert (Hk : blen kw_value_table = 10) by reflexivity.
+    destruct (print_values_head vs (59 :: 10 :: rest)) as (T & ET). rewrite ET.
+    unfold parse_value_table, canon. unfold bind at 1. rewrite p_keyword_canon. rewrite stepS_plain by discriminate.
+    unfold bind at 1. rewrite p_identifier_ws by side. rewrite stepS_plain by discriminate.
+    match goal with |- context [PS (mkS T ?LA ?PP ?LL ?KK ?L2 32 ws_default) None] =>
+      destruct (values_tail (DValueTable {| p_line := line; p_column := 1; p_offset := off |} n) vs rest T LA PP LL KK L2 off
+                  (eq_sym ET) Hvs ltac:(lia) ltac:(lia) ltac:(lia)) as (st' & E & HRd) end.
+    exists st'. split; [exact E|]. ready_at HRd.
+    repeat (rewrite blen_app || rewrite blen_cons). rewrite ?blen_nil. lia.
+  Qed.
+
+  Lemma step_values : forall i n vs rest R line off ll, wf_sdef (SValues i n vs) ->
+    print_def (SValues i n vs) ++ rest = kw_value_descriptions ++ 32 :: R ->
+    (length (print_def (SValues i n vs)) + 4 <= F)%nat ->
+    exists st', parse_value_descriptions il id F (canon line off kw_value_descriptions 32 R ll)
+                = POk (elab_def line off (SValues i n vs)) st'
+                /\ Ready (line + 1) (off + blen (print_def (SValues i n vs))) rest st'.
+  Proof.
+    intros i n vs rest R line off ll Hw HR HF.
+    assert (Hk : blen kw_value_descriptions = 4) by reflexivity.
+    pose proof (blen_nonneg n). pose proof (blen_nonneg (print_values vs)).
+    destruct (print_values_head vs (59 :: 10 :: rest)) as (T & ET).
+    destruct i as [i|]; cbn [wf_sdef] in Hw.
+    - destruct Hw as ((Hi & Hv) & Hn & Hvs). prep HR HF kw_value_descriptions. pose proof (blen_nonneg i). rewrite ET.
+      unfold parse_value_descriptions, canon. unfold bind at 1. rewrite p_keyword_canon. rewrite stepS_plain by discriminate.
+      unfold bind at 1.
+      match goal with |- context [peek_token (PS ?S0 None)] =>
+        assert (Epk : exists tk S1, peek_token (PS S0 None) = POk tk (PS S1 (Some tk)) /\ t_typ tk = TInt) end.
+      { rewrite peek_token_scan. destruct Hi as ((d0 & t & -> & Hd & Ht & Hz) & _).
+        rewrite (scan_ws_uint 32); try side; [|cbn [length] in HF; lia]. eexists; eexists; split; reflexivity. }
+      destruct Epk as (tk & S1 & Epk & Ety). rewrite Epk, Ety. change (TInt =? TIdent) with false. cbv iota.
+      unfold bind at 1. unfold bind at 1. rewrite (msgid_after_peek _ _ _ Epk).
+      rewrite p_message_id_ws by side. rewrite stepS_plain by discriminate.
+      unfold bind at 1. rewrite p_identifier_ws by side. rewrite stepS_plain by discriminate.
+      unfold ret at 1. cbv beta iota.
+      match goal with |- context [PS (mkS T ?LA ?PP ?LL ?KK ?L2 32 ws_default) None] =>
+        destruct (values_tail (fun vs0 => DValueDescriptions {| vs_pos := {| p_line := line; p_column := 1; p_offset := off |};
+                                 vs_object := OtSignal; vs_message_id := uint_value i mod 2 ^ 32; vs_signal := n; vs_envvar := [];
+                                 vs_values := vs0 |}) vs rest T LA PP LL KK L2 off
+                    (eq_sym ET) Hvs ltac:(lia) ltac:(lia) ltac:(lia)) as (st' & E & HRd) end.
+      exists st'. split; [exact E|]. ready_at HRd.
+      repeat (rewrite blen_app || rewrite blen_cons). rewrite ?blen_nil. lia.
+    - destruct Hw as (Hn & Hvs). prep HR HF kw_value_descriptions. rewrite ET.
+      unfold parse_value_descriptions, canon. unfold bind at 1. rewrite p_keyword_canon. rewrite stepS_plain by discriminate.
+      unfold bind at 1.
+      match goal with |- context [peek_token (PS ?S0 None)] =>
+        assert (Epk : exists tk S1, peek_token (PS S0 None) = POk tk (PS S1 (Some tk)) /\ t_typ tk = TIdent) end.
+      { rewrite peek_token_scan. destruct (ident_valid_shape n Hn) as (c0 & t & -> & Hid0 & Hidt).
+        rewrite (scan_ws_ident 32); try side; [|cbn [length] in HF; lia]. eexists; eexists; split; reflexivity. }
+      destruct Epk as (tk & S1 & Epk & Ety). rewrite Epk, Ety. change (TIdent =? TIdent) with true. cbv iota.
+      unfold bind at 1. unfold bind at 1.
+      assert (Eid : p_identifier il id F (PS S1 (Some tk)) = p_identifier il id F
+                      (PS (mkS (n ++ 32 :: T) [32] (off + blen kw_value_descriptions + 1) line (blen kw_value_descriptions + 1) ll 32 ws_default) None))
+        by exact (bind_next_after_peek _ _ _ Epk _ _).
+      rewrite Eid. rewrite p_identifier_ws by side. rewrite stepS_plain by discriminate.
+      unfold ret at 1. cbv beta iota.
+      match goal with |- context [PS (mkS T ?LA ?PP ?LL ?KK ?L2 32 ws_default) None] =>
+        destruct (values_tail (fun vs0 => DValueDescriptions {| vs_pos := {| p_line := line; p_column := 1; p_offset := off |};
+                                 vs_object := OtEnvVar; vs_message_id := 0; vs_signal := []; vs_envvar := n;
+                                 vs_values := vs0 |}) vs rest T LA PP LL KK L2 off
+                    (eq_sym ET) Hvs ltac:(lia) ltac:(lia) ltac:(lia)) as (st' & E & HRd) end.
+      exists st'. split; [exact E|]. ready_at HRd.
+      repeat (rewrite blen_app || rewrite blen_cons). rewrite ?blen_nil. lia.
+  Qed.
+
+  Lemma step_comment : forall o t rest R line off ll, wf_sdef (SComment o t) ->
+    print_def (SComment o t) ++ rest = kw_comment ++ 32 :: R ->
+    (length (print_def (SComment o t)) + 4 <= F)%nat ->
+    exists st', parse_comment il id F (canon line off kw_comment 32 R ll)
+                = POk (elab_def line off (SComment o t)) st'
+                /\ Ready (line + 1) (off + blen (print_def (SComment o t))) rest st'.
+  Proof.
+    intros o t rest R line off ll (Ho & Ht) HR HF.
+    assert (Hk : blen kw_comment = 3) by reflexivity. pose proof (blen_nonneg t).
+    destruct o as [|n|i|i n|n]; cbn [print_obj wf_obj] in *.
+    - (* CM_ "text" ; *)
+      prep HR HF kw_comment.
+      unfold parse_comment, canon. unfold bind at 1. rewrite p_keyword_canon. rewrite stepS_plain by discriminate.
+      unfold bind at 1.
+      match goal with |- context [optional_object_type il id F (PS (mkS _ ?LA ?PP ?LL ?KK ?L2 32 ws_default) None)] =>
+        destruct (quote_peek t 32 (59 :: 10 :: rest) LA PP LL KK L2 Ht ltac:(unfold ascii; lia) ltac:(lia) ltac:(lia))
+          as (tk & st1 & Epk & Ety) end.
+      rewrite (opt_obj_none _ _ _ Epk Ety). unfold bind at 1. cbn [object_ref]. unfold ret at 1. cbv beta iota.
+      unfold bind at 1. rewrite (p_string_after_peek _ _ _ Epk). rewrite p_string_ws by side. rewrite stepS_plain by discriminate.
+      unfold bind at 1. fin_ws rest; [reflexivity|].
+      cbn [print_def print_obj]. repeat (rewrite blen_app || rewrite blen_cons). rewrite ?blen_nil. lia.
+    - (* CM_ BU_ node "text" ; *)
+      prep HR HF kw_comment. unfold kw_nodes in HF. cbn [length] in HF. pose proof (blen_nonneg n).
+      assert (Hk2 : blen kw_nodes = 3) by reflexivity.
+      unfold parse_comment, canon. unfold bind at 1. rewrite p_keyword_canon. rewrite stepS_plain by discriminate.
+      match goal with |- context [mkS (66 :: 85 :: 95 :: 32 :: ?X)] => change (66 :: 85 :: 95 :: 32 :: X) with (kw_nodes ++ 32 :: X) end.
+      unfold bind at 1. rewrite (opt_obj_kw kw_nodes OtNode) by side. rewrite stepS_plain by discriminate.
+      unfold bind at 1. cbn [object_ref]. unfold bind at 1. rewrite p_identifier_ws by side. rewrite stepS_plain by discriminate.
+      unfold ret at 1. cbv beta iota.
+      unfold bind at 1. rewrite p_string_ws by side. rewrite stepS_plain by discriminate.
+      unfold bind at 1. fin_ws rest; [reflexivity|].
+      cbn [print_def print_obj]. repeat (rewrite blen_app || rewrite blen_cons). rewrite ?blen_nil. lia.
+    - (* CM_ BO_ id "text" ; *)
+      destruct Ho as (Hi & Hv). prep HR HF kw_comment. unfold kw_message in HF. cbn [length] in HF. pose proof (blen_nonneg i).
+      assert (Hk2 : blen kw_message = 3) by reflexivity.
+      unfold parse_comment, canon. unfold bind at 1. rewrite p_keyword_canon. rewrite stepS_plain by discriminate.
+      match goal with |- context [mkS (66 :: 79 :: 95 :: 32 :: ?X)] => change (66 :: 79 :: 95 :: 32 :: X) with (kw_message ++ 32 :: X) end.
+      unfold bind at 1. rewrite (opt_obj_kw kw_message OtMessage) by side. rewrite stepS_plain by discriminate.
+      unfold bind at 1. cbn [object_ref]. unfold bind at 1. rewrite p_message_id_ws by side. rewrite stepS_plain by discriminate.
+      unfold ret at 1. cbv beta iota.
+      unfold bind at 1. rewrite p_string_ws by side. rewrite stepS_plain by discriminate.
+      unfold bind at 1. fin_ws rest; [reflexivity|].
+      cbn [print_def print_obj]. repeat (rewrite blen_app || rewrite blen_cons). rewrite ?blen_nil. lia.
+    - (* CM_ SG_ id name "text" ; *)
+      destruct Ho as ((Hi & Hv) & Hn). prep HR HF kw_comment. unfold kw_signal in HF. cbn [length] in HF.
+      pose proof (blen_nonneg i). pose proof (blen_nonneg n).
+      assert (Hk2 : blen kw_signal = 3) by reflexivity.
+      unfold parse_comment, canon. unfold bind at 1. rewrite p_keyword_canon. rewrite stepS_plain by discriminate.
+      match goal with |- context [mkS (83 :: 71 :: 95 :: 32 :: ?X)] => change (83 :: 71 :: 95 :: 32 :: X) with (kw_signal ++ 32 :: X) end.
+      unfold bind at 1. rewrite (opt_obj_kw kw_signal OtSignal) by side. rewrite stepS_plain by discriminate.
+      unfold bind at 1. cbn [object_ref]. unfold bind at 1. rewrite p_message_id_ws by side. rewrite stepS_plain by discriminate.
+      unfold bind at 1. rewrite p_identifier_ws by side. rewrite stepS_plain by discriminate.
+      unfold ret at 1. cbv beta iota.
+      unfold bind at 1. rewrite p_string_ws by side. rewrite stepS_plain by discriminate.
+      unfold bind at 1. fin_ws rest; [reflexivity|].
+      cbn [print_def print_obj]. repeat (rewrite blen_app || rewrite blen_cons). rewrite ?blen_nil. lia.
+    - (* CM_ EV_ name "text" ; *)
+      prep HR HF kw_comment. unfold kw_envvar in HF. cbn [length] in HF. pose proof (blen_nonneg n).
+      assert (Hk2 : blen kw_envvar = 3) by reflexivity.
+      unfold parse_comment, canon. unfold bind at 1. rewrite p_keyword_canon. rewrite stepS_plain by discriminate.
+      match goal with |- context [mkS (69 :: 86 :: 95 :: 32 :: ?X)] => change (69 :: 86 :: 95 :: 32 :: X) with (kw_envvar ++ 32 :: X) end.
+      unfold bind at 1. rewrite (opt_obj_kw kw_envvar OtEnvVar) by side. rewrite stepS_plain by discriminate.
+      unfold bind at 1. cbn [object_ref]. unfold bind at 1. rewrite p_identifier_ws by side. rewrite stepS_plain by discriminate.
+      unfold ret at 1. cbv beta iota.
+      unfold bind at 1. rewrite p_string_ws by side. rewrite stepS_plain by discriminate.
+      unfold bind at 1. fin_ws rest; [reflexivity|].
+      cbn [print_def print_obj]. repeat (rewrite blen_app || rewrite blen_cons). rewrite ?blen_nil. lia.
+  Qed.
+
+  Lemma comma_list_head32 : forall rs X, exists T, comma_list rs ++ 32 :: X = 32 :: T.
+  Proof. intros rs X. destruct rs as [|x rs]; cbn; eexists; reflexivity. Qed.
+
+  Lemma step_envvar : forall n t mn mx u init i acc node nodes rest R line off ll,
+    wf_sdef (SEnvVar n t mn mx u init i acc node nodes) ->
+    print_def (SEnvVar n t mn mx u init i acc node nodes) ++ rest = kw_envvar ++ 32 :: R ->
+    (length (print_def (SEnvVar n t mn mx u init i acc node nodes)) + 4 <= F)%nat ->
+    exists st', parse_envvar il id F (canon line off kw_envvar 32 R ll)
+                = POk (elab_def line off (SEnvVar n t mn mx u init i acc node nodes)) st'
+                /\ Ready (line + 1) (off + blen (print_def (SEnvVar n t mn mx u init i acc node nodes))) rest st'.
+  Proof.
+    intros n t mn mx u init i acc node nodes rest R line off ll
+      (Hn & Ht & Hmn & Hmx & Hu & Hinit & Hi & Hacc & Hnode & Hnodes) HR HF.
+    fold (comma_list nodes) in *. prep HR HF kw_envvar. fold (comma_list nodes) in *.
+    destruct (wf_enum_uint t 2 Ht ltac:(lia)) as (_ & _ & Hlt).
+    destruct (access_name_valid acc Hacc) as (Hav & _).
+    assert (Hal : (length (access_name acc) = 18)%nat).
+    { assert (H : acc = 0 \/ acc = 1 \/ acc = 2 \/ acc = 3) by lia. destruct H as [->|[->|[->| ->]]]; reflexivity. }
+    pose proof (blen_nonneg n). pose proof (blen_nonneg t). pose proof (blen_nonneg (print_num mn)). pose proof (blen_nonneg (print_num mx)).
+    pose proof (blen_nonneg u). pose proof (blen_nonneg (print_num init)). pose proof (blen_nonneg i).
+    pose proof (blen_nonneg (access_name acc)). pose proof (blen_nonneg node). pose proof (blen_nonneg (comma_list nodes)).
+    pose proof (comma_list_length_ge nodes) as Hcl.
+    assert (Hk : blen kw_envvar = 3) by reflexivity.
+    destruct (comma_list_head32 nodes (59 :: 10 :: rest)) as (T & ET). rewrite ET.
+    unfold parse_envvar, canon. unfold bind at 1. rewrite p_keyword_canon. rewrite stepS_plain by discriminate.
+    unfold bind at 1. rewrite p_identifier_ws by side. rewrite stepS_plain by discriminate.
+    unfold bind at 1. rewrite p_token_ws by side. rewrite stepS_plain by discriminate.
+    unfold bind at 1. rewrite (p_small_enum_ws t 2) by side. rewrite stepS_plain by discriminate.
+    unfold bind at 1. rewrite p_token_ws by side. rewrite stepS_plain by discriminate.
+    unfold bind at 1. rewrite p_float_ws by side. rewrite stepS_plain by discriminate.
+    unfold bind at 1. rewrite p_token_ws by side. rewrite stepS_plain by discriminate.
+    unfold bind at 1. rewrite p_float_ws by side. rewrite stepS_plain by discriminate.
+    unfold bind at 1. rewrite p_token_ws by side. rewrite stepS_plain by discriminate.
+    unfold bind at 1. rewrite p_string_ws by side. rewrite stepS_plain by discriminate.
+    unfold bind at 1. rewrite p_float_ws by side. rewrite stepS_plain by discriminate.
+    unfold bind at 1. rewrite p_uint_ws by side. rewrite stepS_plain by discriminate.
+    unfold bind at 1. rewrite p_access_type_ws by side. rewrite stepS_plain by discriminate.
+    unfold bind at 1. unfold comma_idents. unfold bind at 1. rewrite p_identifier_ws by side. rewrite stepS_plain by discriminate.
+    match goal with |- context [comma_idents_loop il id F F [node] (PS (mkS T ?LA ?PP ?LL ?KK ?L2 32 ws_default) None)] =>
+      destruct (comma_idents_semi_run nodes F [node] T 10 rest LA PP LL KK L2 (eq_sym ET) Hnodes ltac:(unfold ascii; lia)
+                  ltac:(lia) ltac:(lia) ltac:(lia)) as (tk & E & Ety) end.
+    rewrite E. unfold bind at 1.
+    match goal with |- context [PS (stepS 10 rest ?PP ?LL ?KK ?L2 10 ws_default) (Some tk)] =>
+      destruct (finish_semi_look tk rest PP LL KK L2 Ety ltac:(lia)) as (st' & E2 & HRd) end.
+    rewrite E2. unfold ret. cbn [elab_def kwtok t_pos rev app]. exists st'. split; [reflexivity|].
+    ready_at HRd. repeat (rewrite blen_app || rewrite blen_cons). rewrite ?blen_nil. lia.
+  Qed.
+
+  (** ------------------------------------------------------------ BA_DEF_, BA_DEF_DEF_, BA_ *)
+
+  Lemma idc_plain : forall c, idc c = true -> plain_char c.
+  Proof.
+    intros c H. unfold idc, ascii_letter, is_decimal in H. unfold plain_char.
+    repeat (apply orb_true_iff in H; destruct H as [H|H]); try (apply andb_true_iff in H; destruct H); lia.
+  Qed.
+
+  Lemma ident_plain : forall n, ident_valid n = true -> Forall plain_char n.
+  Proof.
+    intros n H. destruct (ident_valid_shape n H) as (c0 & t & -> & H0 & Ht). constructor.
+    - apply idc_plain, id0_idc, H0.
+    - eapply Forall_impl; [|exact Ht]. intros a Ha. apply idc_plain, Ha.
+  Qed.
+
+  Lemma psi_after_peek : forall st t st1, peek_token st = POk t st1 ->
+    p_string_identifier il id F st1 = p_string_identifier il id F st.
+  Proof. intros st t st1 H. exact (bind_peek_after_peek _ _ _ H _ _). Qed.
+
+  Lemma p_string_identifier_ws : forall n c2 r last pos l k ll,
+    ident_valid n = true -> ascii c2 -> (length n + 3 < F)%nat -> 0 <= k ->
+    p_string_identifier il id F (PS (mkS (34 :: n ++ 34 :: c2 :: r) last pos l k ll 32 ws_default) None)
+    = POk n (PS (stepS c2 r (pos + blen n + 2) l (k + blen n + 2) ll c2 ws_default) None).
+  Proof.
+    intros n c2 r last pos l k ll Hn Hc2 HF Hk. pose proof (ident_plain n Hn) as Hp.
+    destruct (quote_peek n c2 r last pos l k ll Hp Hc2 ltac:(lia) Hk) as (tk & st1 & Epk & Ety).
+    unfold p_string_identifier. unfold bind at 1. rewrite Epk. unfold bind at 1.
+    rewrite (p_string_after_peek _ _ _ Epk). rewrite p_string_ws by side. rewrite Hn. reflexivity.
+  Qed.
+
+  Definition attr_type_name (t : attr_type) : bytes :=
+    match t with AtInt => s_INT | AtHex => s_HEX | AtFloat => s_FLOAT | AtString => s_STRING | AtEnum => s_ENUM end.
+
+  Lemma p_attr_type_ws : forall ty c r last pos l k ll,
+    ascii c -> idc c = false -> (10 < F)%nat -> 0 <= k ->
+    p_attribute_value_type il id F (PS (mkS (attr_type_name ty ++ c :: r) last pos l k ll 32 ws_default) None)
+    = POk ty (PS (stepS c r (pos + blen (attr_type_name ty)) l (k + blen (attr_type_name ty)) ll c ws_default) None).
+  Proof.
+    intros ty c r last pos l k ll Hc Hnc HF Hk.
+    assert (Hv : ident_valid (attr_type_name ty) = true /\ attr_type_of (attr_type_name ty) = Some ty
+                 /\ (length (attr_type_name ty) <= 6)%nat) by (destruct ty; repeat split; cbn; lia).
+    destruct Hv as (Hv & Hat & Hlen). destruct (ident_valid_shape _ Hv) as (c0 & t & En & H0 & Ht).
+    unfold p_attribute_value_type, bind. rewrite peek_token_scan. rewrite En.
+    rewrite (scan_ws_ident 32); try assumption; [|exact ws32|exact ws_def|rewrite En in Hlen; cbn [length] in Hlen; lia].
+    rewrite p_identifier_look; [|reflexivity|cbn [t_txt]; rewrite <- En; exact Hv]. cbn [t_txt]. rewrite <- En, Hat.
+    unfold ret. f_equal. f_equal. apply stepS_eq; rewrite En, blen_cons; lia.
+  Qed.
+
+  (** p.int() on a pending space followed by [-]digits and [c] *)
+  Lemma p_int_ws : forall n c r last pos l k ll,
+    wf_num n -> numterm c -> (length (print_num n) + 3 < F)%nat -> 0 <= k ->
+    p_int il id F (PS (mkS (print_num n ++ c :: r) last pos l k ll 32 ws_default) None)
+    = POk (num_int n) (PS (stepS c r (pos + blen (print_num n)) l (k + blen (print_num n)) ll c ws_default) None).
+  Proof.
+    intros [neg ds] c r last pos l k ll ((d0 & t & Hds & Hd & Ht & Hz) & Hpf) Hc HF Hk.
+    cbn [n_neg n_digits] in *. subst ds. unfold print_num, num_int in *. cbn [n_neg n_digits] in *.
+    destruct (parse_float (d0 :: t)) as [bits|] eqn:Epf; [|contradiction Hpf; reflexivity].
+    destruct (decimal_ge d0 Hd) as (H33 & Ha0 & H10).
+    unfold p_int, optional_minus, bind. rewrite peek_token_scan. destruct neg; cbn [app]; cbn [app length] in HF.
+    - rewrite (scan_ws_punct 32) by side.
+      cbn [t_typ]. change (45 =? c_minus) with true. cbv beta iota.
+      erewrite p_token_look by reflexivity. unfold ret at 1. rewrite next_token_scan.
+      rewrite stepS_plain by assumption.
+      rewrite scan_direct_uint; try assumption; try lia; [|exact ws_def].
+      cbn [t_typ t_txt]. change (TInt =? TInt) with true. cbn [negb andb]. rewrite Epf. unfold ret.
+      f_equal. f_equal. apply stepS_eq; rewrite !blen_cons; lia.
+    - change (d0 :: t ++ c :: r) with ((d0 :: t) ++ c :: r).
+      rewrite (scan_ws_uint 32); try assumption; [|exact ws32|exact ws_def|lia].
+      cbn [t_typ]. change (TInt =? c_minus) with false. cbv beta iota. unfold ret at 1. rewrite next_token_look.
+      cbn [t_typ t_txt]. change (TInt =? TInt) with true. cbn [negb andb]. rewrite Epf. unfold ret.
+      f_equal. f_equal. apply stepS_eq; rewrite !blen_cons; lia.
+  Qed.
+
+  Lemma bind2_peek_after_peek : forall st t st1, peek_token st = POk t st1 ->
+    forall A B (f : token -> M A) (g : A -> M B), bind (bind peek_token f) g st1 = bind (bind peek_token f) g st.
+  Proof. intros st t st1 H A B f g. unfold bind. rewrite (peek_token_idem _ _ _ H), H. reflexivity. Qed.
+
+  Lemma p_int_after_peek : forall st t st1, peek_token st = POk t st1 -> p_int il id F st1 = p_int il id F st.
+  Proof. intros st t st1 H. exact (bind2_peek_after_peek _ _ _ H _ _ _ _). Qed.
+
+  Lemma p_float_after_peek : forall st t st1, peek_token st = POk t st1 -> p_float il id F st1 = p_float il id F st.
+  Proof. intros st t st1 H. exact (bind2_peek_after_peek _ _ _ H _ _ _ _). Qed.
+
+  Lemma enum_value_after_peek : forall vs st t st1, peek_token st = POk t st1 ->
+    enum_value il id F vs st1 = enum_value il id F vs st.
+  Proof. intros vs st t st1 H. exact (bind_peek_after_peek _ _ _ H _ _). Qed.
+
+  Lemma p_token_after_peek : forall ty st t st1, peek_token st = POk t st1 -> p_token il id F ty st1 = p_token il id F ty st.
+  Proof. intros ty st t st1 H. exact (bind_next_after_peek _ _ _ H _ _). Qed.
+
+  (** the attribute context agrees with the definitions parsed so far *)
+  Definition ctx_agrees (ctx : actx) (defs : list def) : Prop :=
+    forall n, option_map (fun a => (ad_type a, ad_enum_values a)) (find_attribute n defs) = lookup_ctx n ctx.
+
+  Ltac fin_attr rest :=
+    match goal with |- context [p_token il id F c_semi (PS (mkS (59 :: 10 :: rest) ?LA ?PP ?LL ?KK ?L2 32 ws_default) None)] =>
+      let st' := fresh "st'" in let E := fresh "E" in let HRd := fresh "HRd" in
+      destruct (finish_semi_ws rest LA PP LL KK L2 ltac:(lia) ltac:(lia)) as (st' & E & HRd);
+      rewrite E; unfold ret; exists st'; split; [reflexivity|ready_at HRd];
+      cbn [print_attr_value]; unfold print_quoted; repeat (rewrite blen_app || rewrite blen_cons); rewrite ?blen_nil; lia end.
+
+  (** value and ';' of BA_DEF_DEF_ / BA_ *)
+  Definition attr_tail (defs : list def) (name : bytes) (G : Z -> Z -> bytes -> def) : M def :=
+    plet v <- attribute_value il id F defs name;
+    let '(i, f, s) := v in
+    p_token il id F c_semi ;; ret (G i f s).
+
+  Lemma attr_tail_after_peek : forall defs name G st t st1, peek_token st = POk t st1 ->
+    attr_tail defs name G st1 = attr_tail defs name G st.
+  Proof.
+    intros defs name G st t st1 H. unfold attr_tail, attribute_value.
+    destruct (find_attribute name defs) as [a|].
+    - destruct (ad_type a); unfold bind at 1 4; unfold bind at 1 3.
+      + rewrite (p_int_after_peek _ _ _ H). reflexivity.
+      + rewrite (p_int_after_peek _ _ _ H). reflexivity.
+      + rewrite (p_float_after_peek _ _ _ H). reflexivity.
+      + rewrite (p_string_after_peek _ _ _ H). reflexivity.
+      + rewrite (enum_value_after_peek _ _ _ _ H). reflexivity.
+    - unfold bind at 1 3. unfold ret at 1 3. cbv iota. unfold bind at 1 2. rewrite (p_token_after_peek _ _ _ _ H). reflexivity.
+  Qed.
+
+  Lemma attr_tail_run : forall ctx defs name v G rest T last P l K ll,
+    ctx_agrees ctx defs -> wf_attr_value ctx name v ->
+    32 :: T = print_attr_value v ++ 32 :: 59 :: 10 :: rest ->
+    (length (print_attr_value v) + 8 < F)%nat -> 0 <= K ->
+    exists st', attr_tail defs name G (PS (mkS T last P l K ll 32 ws_default) None)
+                = POk (let '(i, f, s) := elab_attr_value ctx name v in G i f s) st'
+                /\ Ready (l + 1) (P + blen (print_attr_value v) + 1 + 1) rest st'.
+  Proof.
+    intros ctx defs name v G rest T last P l K ll Hag Hw HT HF HK.
+    unfold wf_attr_value in Hw. pose proof (Hag name) as Hn. unfold attr_tail, attribute_value, elab_attr_value.
+    destruct (lookup_ctx name ctx) as [[ty vs]|] eqn:El.
+    - destruct (find_attribute name defs) as [a|]; [|discriminate Hn]. cbn [option_map] in Hn. injection Hn as Hty Hvs.
+      rewrite Hty.
+      destruct ty, v; try contradiction; cbn [print_attr_value app] in HT; injection HT as ->; cbn [print_attr_value] in HF;
+        cbn [length] in HF.
+      + (* INT *) unfold bind at 1. unfold bind at 1. rewrite p_int_ws by side. rewrite stepS_plain by discriminate.
+        unfold ret at 1. cbv beta iota. unfold bind at 1.
+        pose proof (blen_nonneg (print_num n)). fin_attr rest.
+      + (* HEX *) unfold bind at 1. unfold bind at 1. rewrite p_int_ws by side. rewrite stepS_plain by discriminate.
+        unfold ret at 1. cbv beta iota. unfold bind at 1.
+        pose proof (blen_nonneg (print_num n)). fin_attr rest.
+      + (* FLOAT *) unfold bind at 1. unfold bind at 1. rewrite p_float_ws by side. rewrite stepS_plain by discriminate.
+        unfold ret at 1. cbv beta iota. unfold bind at 1.
+        pose proof (blen_nonneg (print_num n)). fin_attr rest.
+      + (* STRING *) unfold print_quoted in *. cbn [app length] in *. rewrite app_length in HF. cbn [length] in HF.
+        rewrite <- app_assoc. cbn [app].
+        unfold bind at 1. unfold bind at 1. rewrite p_string_ws by side. rewrite stepS_plain by discriminate.
+        unfold ret at 1. cbv beta iota. unfold bind at 1. pose proof (blen_nonneg s). fin_attr rest.
+      + (* ENUM by index *) destruct Hw as (Hi & Hlt). pose proof (blen_nonneg i).
+        unfold bind at 1. unfold bind at 1. unfold enum_value. unfold bind at 1.
+        match goal with |- context [peek_token (PS ?S0 None)] =>
+          assert (Epk : exists tk S1, peek_token (PS S0 None) = POk tk (PS S1 (Some tk)) /\ t_typ tk = TInt) end.
+        { rewrite peek_token_scan. destruct Hi as ((d0 & t & -> & Hd & Ht & Hz) & _).
+          rewrite (scan_ws_uint 32); try side; [|cbn [length] in HF; lia]. eexists; eexists; split; reflexivity. }
+        destruct Epk as (tk & S1 & Epk & Ety). rewrite Epk, Ety. change (TInt =? TInt) with true. cbv iota.
+        unfold bind at 1.
+        assert (Eu : p_uint il id F (PS S1 (Some tk)) = p_uint il id F (PS (mkS (i ++ 32 :: 59 :: 10 :: rest) last P l K ll 32 ws_default) None))
+          by exact (bind_next_after_peek _ _ _ Epk _ _).
+        rewrite Eu. rewrite p_uint_ws by side. rewrite stepS_plain by discriminate.
+        rewrite Hvs. assert (Eb : (Z.of_nat (length vs) <=? uint_value i) = false) by (apply Z.leb_gt; lia). rewrite Eb.
+        assert (Hnn : 0 <= uint_value i) by (destruct Hi as ((d0 & t & -> & Hd & Ht & Hz) & _); apply uint_value_nonneg; constructor; assumption).
+        rewrite (nth_error_nth' vs [] (n := Z.to_nat (uint_value i))) by lia.
+        unfold ret at 1. unfold ret at 1. cbv beta iota. unfold bind at 1. fin_attr rest.
+      + (* ENUM by string *) unfold print_quoted in *. cbn [app length] in *. rewrite app_length in HF. cbn [length] in HF.
+        rewrite <- app_assoc. cbn [app]. pose proof (blen_nonneg s).
+        unfold bind at 1. unfold bind at 1. unfold enum_value. unfold bind at 1.
+        destruct (quote_peek s 32 (59 :: 10 :: rest) last P l K ll Hw ltac:(unfold ascii; lia) ltac:(lia) HK) as (tk & st1 & Epk & Ety).
+        rewrite Epk, Ety. change (34 =? TInt) with false. cbv iota.
+        rewrite (p_string_after_peek _ _ _ Epk). rewrite p_string_ws by side. rewrite stepS_plain by discriminate.
+        unfold ret at 1. cbv beta iota. unfold bind at 1. fin_attr rest.
+    - destruct (find_attribute name defs) as [a|]; [discriminate Hn|].
+      destruct v; try contradiction. cbn [print_attr_value app] in HT. injection HT as ->.
+      unfold bind at 1. unfold ret at 1. cbv beta iota. unfold bind at 1. fin_attr rest.
+  Qed.
+
+  (** further ENUM values: , "v" ... ; the loop ends with the ';' in the lookahead *)
+  Definition enum_list (vs : list bytes) : bytes := concat (map (fun s => 32 :: 44 :: 32 :: print_quoted s) vs).
+
+  Lemma enum_list_len : forall vs, (length vs <= length (enum_list vs))%nat.
+  Proof.
+    induction vs as [|v vs IH]; cbn [enum_list map concat length]; [lia|]. fold (enum_list vs). rewrite app_length. cbn [length]. lia.
+  Qed.
+
+  Lemma comma_strings_semi_run : forall vs f racc TAIL c2 r last P l K ll,
+    32 :: TAIL = enum_list vs ++ 32 :: 59 :: c2 :: r -> Forall (Forall plain_char) vs -> ascii c2 ->
+    (length vs < f)%nat -> (length (enum_list vs) + 4 < F)%nat -> 0 <= K ->
+    exists tk, comma_strings_loop il id F f racc (PS (mkS TAIL last P l K ll 32 ws_default) None)
+               = POk (rev racc ++ vs)
+                     (PS (stepS c2 r (P + blen (enum_list vs) + 1) l (K + blen (enum_list vs) + 1) ll c2 ws_default) (Some tk))
+               /\ t_typ tk = 59.
+  Proof.
+    induction vs as [|x vs IH]; intros f racc TAIL c2 r last P l K ll HT Hw Hc2 Hf HF HK.
+    - cbn [enum_list map concat app] in HT. injection HT as ->. destruct f as [|f]; [lia|].
+      cbn [comma_strings_loop]. unfold bind at 1.
+      destruct (peek_ws_punct 32 59 c2 r last P l K ll ws_default) as (tk & Ep & Ety); try side.
+      rewrite Ep, Ety. change (59 =? c_comma) with false. cbv iota. unfold ret. cbn [enum_list map concat].
+      rewrite app_nil_r, blen_nil, !Z.add_0_r. exists tk. split; [reflexivity|exact Ety].
+    - apply Forall_cons_iff in Hw. destruct Hw as (Hx & Hw'). destruct f as [|f]; [cbn in Hf; lia|].
+      cbn [enum_list map concat app] in HT. fold (enum_list vs) in HT. unfold print_quoted at 1 in HT. cbn [app] in HT.
+      injection HT as ->.
+      assert (ET' : exists T', enum_list vs ++ 32 :: 59 :: c2 :: r = 32 :: T') by (destruct vs as [|y vs']; cbn; eexists; reflexivity).
+      destruct ET' as (T' & ET').
+      assert (HFx : (length x + length (enum_list vs) + 8 < F)%nat).
+      { unfold enum_list, print_quoted in HF |- *. cbn [map concat] in HF. repeat (rewrite app_length in HF || cbn [length] in HF). lia. }
+      pose proof (blen_nonneg x) as Hnx.
+      cbn [comma_strings_loop]. unfold bind at 1. rewrite <- !app_assoc. cbn [app]. rewrite ET'.
+      destruct (peek_ws_punct 32 44 32 (34 :: x ++ 34 :: 32 :: T') last P l K ll ws_default) as (tk1 & Ep & Ety); try side.
+      rewrite Ep, Ety. change (44 =? c_comma) with true. cbv beta iota. unfold bind at 1.
+      rewrite (p_token_look _ tk1 c_comma Ety). unfold bind at 1. rewrite stepS_plain by discriminate.
+      rewrite p_string_ws by side. rewrite stepS_plain by discriminate.
+      destruct (IH f (x :: racc) T' c2 r [32] (P + 1 + 1 + blen x + 2 + 1) l (K + 1 + 1 + blen x + 2 + 1) ll (eq_sym ET') Hw' Hc2
+                  ltac:(cbn in Hf; lia) ltac:(lia) ltac:(lia)) as (tk & E & Ety2).
+      exists tk. split; [|exact Ety2]. rewrite E. cbn [rev]. rewrite <- app_assoc. cbn [app]. f_equal. f_equal.
+      cbn [enum_list map concat]. fold (enum_list vs). unfold print_quoted.
+      repeat (rewrite blen_app || rewrite blen_cons). rewrite ?blen_nil. apply stepS_eq; lia.
+  Qed.
+
+  Lemma find_attribute_app : forall n a b,
+    find_attribute n (a ++ b) = match find_attribute n a with Some x => Some x | None => find_attribute n b end.
+  Proof.
+    intros n a b. induction a as [|d a IH]; cbn [app find_attribute]; [reflexivity|].
+    destruct d; try exact IH. destruct (bytes_eqb (ad_name a0) n); [reflexivity|exact IH].
+  Qed.
+
+  Lemma lookup_ctx_app : forall n a b,
+    lookup_ctx n (a ++ b) = match lookup_ctx n a with Some x => Some x | None => lookup_ctx n b end.
+  Proof.
+    intros n a b. induction a as [|[m v] a IH]; cbn [app lookup_ctx]; [reflexivity|].
+    destruct (bytes_eqb m n); [reflexivity|exact IH].
+  Qed.
+
+  Lemma find_attr_non_attr : forall ctx l o d n,
+    match d with SAttr _ _ _ => False | _ => True end -> find_attribute n [elab_def_ctx ctx l o d] = None.
+  Proof.
+    intros ctx l o d n H. destruct d; try contradiction; cbn [elab_def_ctx elab_def];
+      repeat match goal with |- context [match ?x with _ => _ end] => destruct x end; reflexivity.
+  Qed.
+
+  (** parsing one more definition keeps the context in agreement *)
+  Lemma ctx_agrees_step : forall ctx defs line off d, ctx_agrees ctx defs ->
+    ctx_agrees (ctx_step ctx d) (defs ++ [elab_def_ctx ctx line off d]).
+  Proof.
+    intros ctx defs line off d Hag n. rewrite find_attribute_app. specialize (Hag n).
+    assert (Hd : (exists o name body, d = SAttr o name body) \/ match d with SAttr _ _ _ => False | _ => True end)
+      by (destruct d; try (right; exact I); left; eauto).
+    destruct Hd as [(o & name & body & ->)|Hd].
+    - cbn [ctx_step elab_def_ctx elab_def]. rewrite lookup_ctx_app. destruct (find_attribute n defs) as [a|]; cbn [option_map] in *.
+      + rewrite <- Hag. reflexivity.
+      + rewrite <- Hag. cbn [find_attribute lookup_ctx ad_name]. destruct (bytes_eqb name n); reflexivity.
+    - rewrite (find_attr_non_attr ctx line off d n Hd).
+      assert (Hc : ctx_step ctx d = ctx) by (destruct d; try reflexivity; contradiction). rewrite Hc.
+      destruct (find_attribute n defs); exact Hag.
+  Qed.
+
+  Lemma attr_value_head : forall v X, exists T, print_attr_value v ++ 32 :: X = 32 :: T.
+  Proof. intros v X. destruct v; cbn; eexists; reflexivity. Qed.
+
+  Lemma step_attr_default : forall ctx defs name v rest R line off ll,
+    ctx_agrees ctx defs -> wf_sdef_ctx ctx (SAttrDefault name v) ->
+    print_def (SAttrDefault name v) ++ rest = kw_attribute_default ++ 32 :: R ->
+    (length (print_def (SAttrDefault name v)) + 4 <= F)%nat ->
+    exists st', parse_attribute_default il id F defs (canon line off kw_attribute_default 32 R ll)
+                = POk (elab_def_ctx ctx line off (SAttrDefault name v)) st'
+                /\ Ready (line + 1) (off + blen (print_def (SAttrDefault name v))) rest st'.
+  Proof.
+    intros ctx defs name v rest R line off ll Hag (Hname & Hv) HR HF. cbn [wf_sdef] in Hname.
+    unfold print_quoted in *. prep HR HF kw_attribute_default.
+    assert (Hk : blen kw_attribute_default = 11) by reflexivity.
+    pose proof (blen_nonneg name). pose proof (blen_nonneg (print_attr_value v)).
+    destruct (attr_value_head v (59 :: 10 :: rest)) as (T & ET). rewrite ET.
+    unfold parse_attribute_default, canon. unfold bind at 1. rewrite p_keyword_canon. rewrite stepS_plain by discriminate.
+    unfold bind at 1. rewrite p_string_ws by side. rewrite stepS_plain by discriminate.
+    match goal with |- context [PS (mkS T ?LA ?PP ?LL ?KK ?L2 32 ws_default) None] =>
+      destruct (attr_tail_run ctx defs name v
+                  (fun i f s0 => DAttributeDefault {| dd_pos := {| p_line := line; p_column := 1; p_offset := off |}; dd_name := name;
+                                                      dd_int := i; dd_float := f; dd_string := s0 |})
+                  rest T LA PP LL KK L2 Hag Hv (eq_sym ET) ltac:(lia) ltac:(lia)) as (st' & E & HRd) end.
+    exists st'. split.
+    - unfold attr_tail in E. cbn [elab_def_ctx]. destruct (elab_attr_value ctx name v) as [[i f] s0]. exact E.
+    - ready_at HRd. unfold print_quoted. repeat (rewrite blen_app || rewrite blen_cons). rewrite ?blen_nil. lia.
+  Qed.
+
+  Lemma attr_value_peek : forall ctx name v T rest last P l K ll,
+    wf_attr_value ctx name v -> 32 :: T = print_attr_value v ++ 32 :: 59 :: 10 :: rest ->
+    (length (print_attr_value v) + 8 < F)%nat -> 0 <= K ->
+    exists t st1, peek_token (PS (mkS T last P l K ll 32 ws_default) None) = POk t st1 /\ t_typ t <> TIdent.
+  Proof.
+    intros ctx name v T rest last P l K ll Hw HT HF HK. unfold wf_attr_value in Hw.
+    destruct v; cbn [print_attr_value app] in HT; injection HT as ->; cbn [print_attr_value length] in HF.
+    - destruct (peek_ws_punct 32 59 10 rest last P l K ll ws_default) as (tk & Ep & Ety); try side.
+      eexists; eexists; split; [exact Ep|rewrite Ety; discriminate].
+    - assert (Hn : wf_num n) by (destruct (lookup_ctx name ctx) as [[[] ?]|]; try contradiction; exact Hw).
+      destruct (value_peek (n, []) (59 :: 10 :: rest) last P l K ll (conj Hn (Forall_nil _))
+                  ltac:(cbn [fst]; lia) HK) as (t & st1 & Ep & Hty).
+      eexists; eexists; split; [exact Ep|]. destruct Hty as [-> | ->]; discriminate.
+    - assert (Hn : wf_num n) by (destruct (lookup_ctx name ctx) as [[[] ?]|]; try contradiction; exact Hw).
+      destruct (value_peek (n, []) (59 :: 10 :: rest) last P l K ll (conj Hn (Forall_nil _))
+                  ltac:(cbn [fst]; lia) HK) as (t & st1 & Ep & Hty).
+      eexists; eexists; split; [exact Ep|]. destruct Hty as [-> | ->]; discriminate.
+    - assert (Hs : Forall plain_char s) by (destruct (lookup_ctx name ctx) as [[[] ?]|]; try contradiction; exact Hw).
+      unfold print_quoted in *. rewrite <- app_assoc. cbn [app]. cbn [app length] in HF. rewrite app_length in HF.
+      destruct (quote_peek s 32 (59 :: 10 :: rest) last P l K ll Hs ltac:(unfold ascii; lia) ltac:(lia) HK) as (tk & st1 & Ep & Ety).
+      eexists; eexists; split; [exact Ep|rewrite Ety; discriminate].
+    - assert (Hi : wf_uint i) by (destruct (lookup_ctx name ctx) as [[[] ?]|]; try contradiction; apply Hw).
+      destruct Hi as ((d0 & t & -> & Hd & Ht & Hz) & _). rewrite peek_token_scan.
+      rewrite (scan_ws_uint 32); try side; [|cbn [length] in HF; lia]. eexists; eexists; split; [reflexivity|discriminate].
+    - assert (Hs : Forall plain_char s) by (destruct (lookup_ctx name ctx) as [[[] ?]|]; try contradiction; exact Hw).
+      unfold print_quoted in *. rewrite <- app_assoc. cbn [app]. cbn [app length] in HF. rewrite app_length in HF.
+      destruct (quote_peek s 32 (59 :: 10 :: rest) last P l K ll Hs ltac:(unfold ascii; lia) ltac:(lia) HK) as (tk & st1 & Ep & Ety).
+      eexists; eexists; split; [exact Ep|rewrite Ety; discriminate].
+  Qed.
+
+  Lemma opt_obj_not_ident : forall st tk st1, peek_token st = POk tk st1 -> t_typ tk <> TIdent ->
+    optional_object_type il id F st = POk OtUnspecified st1.
+  Proof.
+    intros st tk st1 H Ht. unfold optional_object_type, bind. rewrite H.
+    apply Z.eqb_neq in Ht. rewrite Ht. reflexivity.
+  Qed.
+
+  Lemma step_attr_value : forall ctx defs name o v rest R line off ll,
+    ctx_agrees ctx defs -> wf_sdef_ctx ctx (SAttrValue name o v) ->
+    print_def (SAttrValue name o v) ++ rest = kw_attribute_value ++ 32 :: R ->
+    (length (print_def (SAttrValue name o v)) + 4 <= F)%nat ->
+    exists st', parse_attribute_value il id F defs (canon line off kw_attribute_value 32 R ll)
+                = POk (elab_def_ctx ctx line off (SAttrValue name o v)) st'
+                /\ Ready (line + 1) (off + blen (print_def (SAttrValue name o v))) rest st'.
+  Proof.
+    intros ctx defs name o v rest R line off ll Hag ((Hname & Ho) & Hv) HR HF.
+    assert (Hk : blen kw_attribute_value = 3) by reflexivity.
+    pose proof (blen_nonneg name). pose proof (blen_nonneg (print_attr_value v)).
+    destruct (attr_value_head v (59 :: 10 :: rest)) as (T & ET).
+    set (pos0 := {| p_line := line; p_column := 1; p_offset := off |}).
+    destruct o as [|n|i|i n|n]; cbn [wf_obj] in Ho.
+    - (* no object *)
+      prep HR HF kw_attribute_value. rewrite ET.
+      unfold parse_attribute_value, canon. unfold bind at 1. rewrite p_keyword_canon. rewrite stepS_plain by discriminate.
+      unfold bind at 1. rewrite p_string_ws by side. rewrite stepS_plain by discriminate.
+      unfold bind at 1.
+      match goal with |- context [optional_object_type il id F (PS (mkS T ?LA ?PP ?LL ?KK ?L2 32 ws_default) None)] =>
+        destruct (attr_value_peek ctx name v T rest LA PP LL KK L2 Hv (eq_sym ET) ltac:(lia) ltac:(lia)) as (tk & st1 & Epk & Hty);
+        rewrite (opt_obj_not_ident _ _ _ Epk Hty); unfold bind at 1; cbn [object_ref]; unfold ret at 1; cbv beta iota;
+        destruct (attr_tail_run ctx defs name v
+                    (fun i0 f s0 => DAttributeValue {| av_pos := pos0; av_name := name; av_object := OtUnspecified; av_message_id := 0;
+                                     av_signal := []; av_node := []; av_envvar := []; av_int := i0; av_float := f; av_string := s0 |})
+                    rest T LA PP LL KK L2 Hag Hv (eq_sym ET) ltac:(lia) ltac:(lia)) as (st' & E & HRd) end.
+      rewrite <- (attr_tail_after_peek _ _ _ _ _ _ Epk) in E.
+      exists st'. split.
+      + unfold attr_tail in E. cbn [elab_def_ctx]. destruct (elab_attr_value ctx name v) as [[i0 f] s0]. exact E.
+      + ready_at HRd. cbn [print_obj]. unfold print_quoted. repeat (rewrite blen_app || rewrite blen_cons). rewrite ?blen_nil. lia.
+    - (* BU_ node *)
+      prep HR HF kw_attribute_value. unfold kw_nodes in HF. cbn [length] in HF. pose proof (blen_nonneg n).
+      assert (Hk2 : blen kw_nodes = 3) by reflexivity. rewrite ET.
+      unfold parse_attribute_value, canon. unfold bind at 1. rewrite p_keyword_canon. rewrite stepS_plain by discriminate.
+      unfold bind at 1. rewrite p_string_ws by side. rewrite stepS_plain by discriminate.
+      match goal with |- context [mkS (66 :: 85 :: 95 :: 32 :: ?X)] => change (66 :: 85 :: 95 :: 32 :: X) with (kw_nodes ++ 32 :: X) end.
+      unfold bind at 1. rewrite (opt_obj_kw kw_nodes OtNode) by side. rewrite stepS_plain by discriminate.
+      unfold bind at 1. cbn [object_ref]. unfold bind at 1. rewrite p_identifier_ws by side. rewrite stepS_plain by discriminate.
+      unfold ret at 1. cbv beta iota.
+      match goal with |- context [PS (mkS T ?LA ?PP ?LL ?KK ?L2 32 ws_default) None] =>
+        destruct (attr_tail_run ctx defs name v
+                    (fun i0 f s0 => DAttributeValue {| av_pos := pos0; av_name := name; av_object := OtNode; av_message_id := 0;
+                                     av_signal := []; av_node := n; av_envvar := []; av_int := i0; av_float := f; av_string := s0 |})
+                    rest T LA PP LL KK L2 Hag Hv (eq_sym ET) ltac:(lia) ltac:(lia)) as (st' & E & HRd) end.
+      exists st'. split.
+      + unfold attr_tail in E. cbn [elab_def_ctx]. destruct (elab_attr_value ctx name v) as [[i0 f] s0]. exact E.
+      + ready_at HRd. cbn [print_obj]. unfold print_quoted. repeat (rewrite blen_app || rewrite blen_cons). rewrite ?blen_nil. lia.
+    - (* BO_ id *)
+      destruct Ho as (Hi & Hvi). prep HR HF kw_attribute_value. unfold kw_message in HF. cbn [length] in HF. pose proof (blen_nonneg i).
+      assert (Hk2 : blen kw_message = 3) by reflexivity. rewrite ET.
+      unfold parse_attribute_value, canon. unfold bind at 1. rewrite p_keyword_canon. rewrite stepS_plain by discriminate.
+      unfold bind at 1. rewrite p_string_ws by side. rewrite stepS_plain by discriminate.
+      match goal with |- context [mkS (66 :: 79 :: 95 :: 32 :: ?X)] => change (66 :: 79 :: 95 :: 32 :: X) with (kw_message ++ 32 :: X) end.
+      unfold bind at 1. rewrite (opt_obj_kw kw_message OtMessage) by side. rewrite stepS_plain by discriminate.
+      unfold bind at 1. cbn [object_ref]. unfold bind at 1. rewrite p_message_id_ws by side. rewrite stepS_plain by discriminate.
+      unfold ret at 1. cbv beta iota.
+      match goal with |- context [PS (mkS T ?LA ?PP ?LL ?KK ?L2 32 ws_default) None] =>
+        destruct (attr_tail_run ctx defs name v
+                    (fun i0 f s0 => DAttributeValue {| av_pos := pos0; av_name := name; av_object := OtMessage; av_message_id := msgid i;
+                                     av_signal := []; av_node := []; av_envvar := []; av_int := i0; av_float := f; av_string := s0 |})
+                    rest T LA PP LL KK L2 Hag Hv (eq_sym ET) ltac:(lia) ltac:(lia)) as (st' & E & HRd) end.
+      exists st'. split.
+      + unfold attr_tail in E. cbn [elab_def_ctx]. destruct (elab_attr_value ctx name v) as [[i0 f] s0]. exact E.
+      + ready_at HRd. cbn [print_obj]. unfold print_quoted. repeat (rewrite blen_app || rewrite blen_cons). rewrite ?blen_nil. lia.
+    - (* SG_ id name *)
+      destruct Ho as ((Hi & Hvi) & Hn). prep HR HF kw_attribute_value. unfold kw_signal in HF. cbn [length] in HF.
+      pose proof (blen_nonneg i). pose proof (blen_nonneg n).
+      assert (Hk2 : blen kw_signal = 3) by reflexivity. rewrite ET.
+      unfold parse_attribute_value, canon. unfold bind at 1. rewrite p_keyword_canon. rewrite stepS_plain by discriminate.
+      unfold bind at 1. rewrite p_string_ws by side. rewrite stepS_plain by discriminate.
+      match goal with |- context [mkS (83 :: 71 :: 95 :: 32 :: ?X)] => change (83 :: 71 :: 95 :: 32 :: X) with (kw_signal ++ 32 :: X) end.
+      unfold bind at 1. rewrite (opt_obj_kw kw_signal OtSignal) by side. rewrite stepS_plain by discriminate.
+      unfold bind at 1. cbn [object_ref]. unfold bind at 1. rewrite p_message_id_ws by side. rewrite stepS_plain by discriminate.
+      unfold bind at 1. rewrite p_identifier_ws by side. rewrite stepS_plain by discriminate.
+      unfold ret at 1. cbv beta iota.
+      match goal with |- context [PS (mkS T ?LA ?PP ?LL ?KK ?L2 32 ws_default) None] =>
+        destruct (attr_tail_run ctx defs name v
+                    (fun i0 f s0 => DAttributeValue {| av_pos := pos0; av_name := name; av_object := OtSignal; av_message_id := msgid i;
+                                     av_signal := n; av_node := []; av_envvar := []; av_int := i0; av_float := f; av_string := s0 |})
+                    rest T LA PP LL KK L2 Hag Hv (eq_sym ET) ltac:(lia) ltac:(lia)) as (st' & E & HRd) end.
+      exists st'. split.
+      + unfold attr_tail in E. cbn [elab_def_ctx]. destruct (elab_attr_value ctx name v) as [[i0 f] s0]. exact E.
+      + ready_at HRd. cbn [print_obj]. unfold print_quoted. repeat (rewrite blen_app || rewrite blen_cons). rewrite ?blen_nil. lia.
+    - (* EV_ name *)
+      prep HR HF kw_attribute_value. unfold kw_envvar in HF. cbn [length] in HF. pose proof (blen_nonneg n).
+      assert (Hk2 : blen kw_envvar = 3) by reflexivity. rewrite ET.
+      unfold parse_attribute_value, canon. unfold bind at 1. rewrite p_keyword_canon. rewrite stepS_plain by discriminate.
+      unfold bind at 1. rewrite p_string_ws by side. rewrite stepS_plain by discriminate.
+      match goal with |- context [mkS (69 :: 86 :: 95 :: 32 :: ?X)] => change (69 :: 86 :: 95 :: 32 :: X) with (kw_envvar ++ 32 :: X) end.
+      unfold bind at 1. rewrite (opt_obj_kw kw_envvar OtEnvVar) by side. rewrite stepS_plain by discriminate.
+      unfold bind at 1. cbn [object_ref]. unfold bind at 1. rewrite p_identifier_ws by side. rewrite stepS_plain by discriminate.
+      unfold ret at 1. cbv beta iota.
+      match goal with |- context [PS (mkS T ?LA ?PP ?LL ?KK ?L2 32 ws_default) None] =>
+        destruct (attr_tail_run ctx defs name v
+                    (fun i0 f s0 => DAttributeValue {| av_pos := pos0; av_name := name; av_object := OtEnvVar; av_message_id := 0;
+                                     av_signal := []; av_node := []; av_envvar := n; av_int := i0; av_float := f; av_string := s0 |})
+                    rest T LA PP LL KK L2 Hag Hv (eq_sym ET) ltac:(lia) ltac:(lia)) as (st' & E & HRd) end.
+      exists st'. split.
+      + unfold attr_tail in E. cbn [elab_def_ctx]. destruct (elab_attr_value ctx name v) as [[i0 f] s0]. exact E.
+      + ready_at HRd. cbn [print_obj]. unfold print_quoted. repeat (rewrite blen_app || rewrite blen_cons). rewrite ?blen_nil. lia.
+  Qed.
+
+  (** parse_attribute after the name *)
+  Definition attr_cont (kwpos : position) (ot : object_type) (name : bytes) : M def :=
+    plet ty <- p_attribute_value_type il id F;
+    plet body <-
+      (match ty with
+       | AtInt | AtHex =>
+         plet t <- peek_token;
+         if negb (t_typ t =? c_semi) then plet a <- p_int il id F; plet b <- p_int il id F; ret (a, b, 0, 0, [])
+         else ret (0, 0, 0, 0, [])
+       | AtFloat =>
+         plet t <- peek_token;
+         if negb (t_typ t =? c_semi) then plet a <- p_float il id F; plet b <- p_float il id F; ret (0, 0, a, b, [])
+         else ret (0, 0, 0, 0, [])
+       | AtEnum =>
+         plet s <- p_string il id F; plet vs <- comma_strings_loop il id F F [s]; ret (0, 0, 0, 0, vs)
+       | AtString => ret (0, 0, 0, 0, [])
+       end);
+    let '(mi, ma, mf, xf, vs) := body in
+    p_token il id F c_semi ;;
+    ret (DAttribute {| ad_pos := kwpos; ad_object := ot; ad_name := name; ad_type := ty;
+                       ad_min_int := mi; ad_max_int := ma; ad_min_float := mf; ad_max_float := xf;
+                       ad_enum_values := vs |}).
+
+  Lemma parse_attribute_unfold :
+    parse_attribute il id F =
+    (plet kw <- p_keyword il id F kw_attribute;
+     plet ot <- optional_object_type il id F;
+     plet name <- p_string_identifier il id F;
+     attr_cont (t_pos kw) ot name).
+  Proof. reflexivity. Qed.
+
+  Lemma attr_body_head : forall b X, exists T, print_attr_body b ++ 32 :: X = 32 :: T.
+  Proof. intros b X. destruct b; cbn; eexists; reflexivity. Qed.
+
+  Lemma attr_type_name_body : forall b, exists rst,
+    print_attr_body b = 32 :: attr_type_name (attr_body_type b) ++ rst
+    /\ rst = match b with
+             | ABInt _ r | ABFloat r => print_range r
+             | ABString => []
+             | ABEnum v vs => 32 :: print_quoted v ++ enum_list vs
+             end.
+  Proof. intros b. destruct b as [[|] r|r| |v vs]; cbn [print_attr_body attr_body_type attr_type_name]; eexists; split; reflexivity. Qed.
+
+  Lemma attr_cont_run : forall kwpos ot name body rest T last P l K ll,
+    wf_attr_body body -> 32 :: T = print_attr_body body ++ 32 :: 59 :: 10 :: rest ->
+    (length (print_attr_body body) + 12 < F)%nat -> 0 <= K ->
+    exists st', attr_cont kwpos ot name (PS (mkS T last P l K ll 32 ws_default) None)
+                = POk (DAttribute {| ad_pos := kwpos; ad_object := ot; ad_name := name; ad_type := attr_body_type body;
+                        ad_min_int := (match body with ABInt _ (Some (a, _)) => num_int a | _ => 0 end);
+                        ad_max_int := (match body with ABInt _ (Some (_, b)) => num_int b | _ => 0 end);
+                        ad_min_float := (match body with ABFloat (Some (a, _)) => num_bits a | _ => 0 end);
+                        ad_max_float := (match body with ABFloat (Some (_, b)) => num_bits b | _ => 0 end);
+                        ad_enum_values := attr_body_enums body |}) st'
+                /\ Ready (l + 1) (P + blen (print_attr_body body) + 1 + 1) rest st'.
+  Proof.
+    intros kwpos ot name body rest T last P l K ll Hw HT HF HK.
+    destruct (attr_type_name_body body) as (rst & Eb & Erst). rewrite Eb in HT, HF. cbn [app] in HT. injection HT as ->.
+    assert (Htn : (length (attr_type_name (attr_body_type body)) <= 6)%nat /\ 0 <= blen (attr_type_name (attr_body_type body)))
+      by (split; [destruct body as [[|] ?|?| |? ?]; cbn; lia|apply blen_nonneg]).
+    destruct Htn as (Htl & Htn). cbn [length] in HF. rewrite app_length in HF.
+    assert (E32 : exists q, rst ++ 32 :: 59 :: 10 :: rest = 32 :: q).
+    { subst rst. destruct body as [h [[a b]|]|[[a b]|]| |v vs]; cbn; eexists; reflexivity. }
+    destruct E32 as (q & Eq). rewrite <- app_assoc. rewrite Eq.
+    unfold attr_cont. unfold bind at 1. rewrite p_attr_type_ws by side. rewrite stepS_plain by discriminate.
+    rewrite Eb. rewrite blen_cons, blen_app.
+    destruct body as [h [[a b]|]|[[a b]|]| |v vs]; cbn [wf_attr_body wf_range] in Hw; cbn [print_range] in Erst; subst rst;
+      cbn [app length] in *.
+    - (* INT/HEX a b *) destruct Hw as (Ha & Hb). injection Eq as <-. rewrite <- app_assoc in *. cbn [app] in *.
+      repeat (rewrite app_length in HF || cbn [length] in HF).
+      pose proof (blen_nonneg (print_num a)). pose proof (blen_nonneg (print_num b)).
+      match goal with |- context [PS (mkS ?TT ?LA ?PP ?LL ?KK ?L2 32 ws_default) None] =>
+        destruct (value_peek (a, []) (print_num b ++ 32 :: 59 :: 10 :: rest) LA PP LL KK L2 (conj Ha (Forall_nil _))
+                    ltac:(cbn [fst]; lia) ltac:(lia)) as (tk & st1 & Epk & Hty) end.
+      cbn [fst] in Epk.
+      assert (Ens : (t_typ tk =? c_semi) = false) by (destruct Hty as [-> | ->]; reflexivity).
+      destruct h; cbn [attr_body_type]; unfold bind at 1; unfold bind at 1; rewrite Epk, Ens; cbn [negb];
+        unfold bind at 1; rewrite (p_int_after_peek _ _ _ Epk); rewrite p_int_ws by side; rewrite stepS_plain by discriminate;
+        unfold bind at 1; rewrite p_int_ws by side; rewrite stepS_plain by discriminate;
+        unfold ret at 1; cbv beta iota; unfold bind at 1;
+        (match goal with |- context [p_token il id F c_semi (PS (mkS (59 :: 10 :: rest) ?LA ?PP ?LL ?KK ?L2 32 ws_default) None)] =>
+           destruct (finish_semi_ws rest LA PP LL KK L2 ltac:(lia) ltac:(lia)) as (st' & E & HRd) end);
+        rewrite E; unfold ret; exists st'; (split; [reflexivity|]); ready_at HRd;
+        repeat (rewrite blen_app || rewrite blen_cons); rewrite ?blen_nil; lia.
+    - (* INT/HEX *) injection Eq as <-. rewrite app_nil_r in *.
+      match goal with |- context [PS (mkS (59 :: 10 :: rest) ?LA ?PP ?LL ?KK ?L2 32 ws_default) None] =>
+        destruct (peek_ws_punct 32 59 10 rest LA PP LL KK L2 ws_default) as (tk & Epk & Ety); try side end.
+      destruct h; cbn [attr_body_type]; unfold bind at 1; unfold bind at 1; rewrite Epk, Ety; change (59 =? c_semi) with true; cbn [negb];
+        unfold ret at 1; cbv beta iota; unfold bind at 1;
+        (match goal with |- context [PS (stepS 10 rest ?PP ?LL ?KK ?L2 10 ws_default) (Some tk)] =>
+           destruct (finish_semi_look tk rest PP LL KK L2 Ety ltac:(lia)) as (st' & E2 & HRd) end);
+        rewrite E2; unfold ret; exists st'; (split; [reflexivity|]); ready_at HRd;
+        repeat (rewrite blen_app || rewrite blen_cons); rewrite ?blen_nil; lia.
+    - (* FLOAT a b *) destruct Hw as (Ha & Hb). injection Eq as <-. rewrite <- app_assoc in *. cbn [app] in *.
+      repeat (rewrite app_length in HF || cbn [length] in HF).
+      pose proof (blen_nonneg (print_num a)). pose proof (blen_nonneg (print_num b)).
+      match goal with |- context [PS (mkS ?TT ?LA ?PP ?LL ?KK ?L2 32 ws_default) None] =>
+        destruct (value_peek (a, []) (print_num b ++ 32 :: 59 :: 10 :: rest) LA PP LL KK L2 (conj Ha (Forall_nil _))
+                    ltac:(cbn [fst]; lia) ltac:(lia)) as (tk & st1 & Epk & Hty) end.
+      cbn [fst] in Epk.
+      assert (Ens : (t_typ tk =? c_semi) = false) by (destruct Hty as [-> | ->]; reflexivity).
+      cbn [attr_body_type]. unfold bind at 1. unfold bind at 1. rewrite Epk, Ens. cbn [negb].
+      unfold bind at 1. rewrite (p_float_after_peek _ _ _ Epk). rewrite p_float_ws by side. rewrite stepS_plain by discriminate.
+      unfold bind at 1. rewrite p_float_ws by side. rewrite stepS_plain by discriminate.
+      unfold ret at 1. cbv beta iota. unfold bind at 1.
+      match goal with |- context [p_token il id F c_semi (PS (mkS (59 :: 10 :: rest) ?LA ?PP ?LL ?KK ?L2 32 ws_default) None)] =>
+        destruct (finish_semi_ws rest LA PP LL KK L2 ltac:(lia) ltac:(lia)) as (st' & E & HRd) end.
+      rewrite E. unfold ret. exists st'. split; [reflexivity|]. ready_at HRd.
+      repeat (rewrite blen_app || rewrite blen_cons). rewrite ?blen_nil. lia.
+    - (* FLOAT *) injection Eq as <-. rewrite app_nil_r in *.
+      match goal with |- context [PS (mkS (59 :: 10 :: rest) ?LA ?PP ?LL ?KK ?L2 32 ws_default) None] =>
+        destruct (peek_ws_punct 32 59 10 rest LA PP LL KK L2 ws_default) as (tk & Epk & Ety); try side end.
+      cbn [attr_body_type]. unfold bind at 1. unfold bind at 1. rewrite Epk, Ety. change (59 =? c_semi) with true. cbn [negb].
+      unfold ret at 1. cbv beta iota. unfold bind at 1.
+      match goal with |- context [PS (stepS 10 rest ?PP ?LL ?KK ?L2 10 ws_default) (Some tk)] =>
+        destruct (finish_semi_look tk rest PP LL KK L2 Ety ltac:(lia)) as (st' & E2 & HRd) end.
+      rewrite E2. unfold ret. exists st'. split; [reflexivity|]. ready_at HRd.
+      repeat (rewrite blen_app || rewrite blen_cons). rewrite ?blen_nil. lia.
+    - (* STRING *) injection Eq as <-. rewrite app_nil_r in *.
+      cbn [attr_body_type]. unfold bind at 1. unfold ret at 1. cbv beta iota. unfold bind at 1.
+      match goal with |- context [p_token il id F c_semi (PS (mkS (59 :: 10 :: rest) ?LA ?PP ?LL ?KK ?L2 32 ws_default) None)] =>
+        destruct (finish_semi_ws rest LA PP LL KK L2 ltac:(lia) ltac:(lia)) as (st' & E & HRd) end.
+      rewrite E. unfold ret. exists st'. split; [reflexivity|]. ready_at HRd.
+      repeat (rewrite blen_app || rewrite blen_cons). rewrite ?blen_nil. lia.
+    - (* ENUM *) destruct Hw as (Hv & Hvs). injection Eq as <-. unfold print_quoted in *.
+      cbn [app] in *. rewrite <- !app_assoc in *. cbn [app] in *.
+      repeat (rewrite app_length in HF || cbn [length] in HF).
+      pose proof (blen_nonneg v). pose proof (blen_nonneg (enum_list vs)). pose proof (enum_list_len vs) as Hel.
+      assert (ET' : exists T', enum_list vs ++ 32 :: 59 :: 10 :: rest = 32 :: T') by (destruct vs as [|y vs']; cbn; eexists; reflexivity).
+      destruct ET' as (T' & ET'). rewrite ET'.
+      cbn [attr_body_type]. unfold bind at 1. unfold bind at 1. rewrite p_string_ws by side. rewrite stepS_plain by discriminate.
+      unfold bind at 1.
+      match goal with |- context [comma_strings_loop il id F F [v] (PS (mkS T' ?LA ?PP ?LL ?KK ?L2 32 ws_default) None)] =>
+        destruct (comma_strings_semi_run vs F [v] T' 10 rest LA PP LL KK L2 (eq_sym ET') Hvs ltac:(unfold ascii; lia) ltac:(lia)
+                    ltac:(lia) ltac:(lia)) as (tk & E & Ety) end.
+      rewrite E. unfold ret at 1. cbv beta iota. unfold bind at 1.
+      match goal with |- context [PS (stepS 10 rest ?PP ?LL ?KK ?L2 10 ws_default) (Some tk)] =>
+        destruct (finish_semi_look tk rest PP LL KK L2 Ety ltac:(lia)) as (st' & E2 & HRd) end.
+      rewrite E2. unfold ret. cbn [rev app attr_body_enums]. exists st'. split; [reflexivity|]. ready_at HRd.
+      repeat (rewrite blen_app || rewrite blen_cons). rewrite ?blen_nil. lia.
   Qed.
 
   (** ------------------------------------------------------------ the whole file *)
@@ -1719,7 +2618,7 @@ Section RT.
     exists kw c r, print_def d ++ rest = kw ++ c :: r /\ is_ident kw /\ ascii c /\ idc c = false
                    /\ (length kw < length (print_def d))%nat /\ bytes_eqb kw kw_signal = false.
   Proof.
-    intros d rest Hw. destruct d as [s|[[b [[b1 b2]|]]|]|ns|mi mn msz mtx sigs|kw ts|co ct|[vi|] vn vvs|tn tvs|svi svn svc svt|xi xtxs|en et emn emx eu einit ei eacc enode enodes|dn dsz]; cbn [print_def wf_sdef] in *.
+    intros d rest Hw. destruct d as [s|[[b [[b1 b2]|]]|]|ns|mi mn msz mtx sigs|kw ts|co ct|[vi|] vn vvs|tn tvs|svi svn svc svt|xi xtxs|en et emn emx eu einit ei eacc enode enodes|dn dsz|ao an ab|dfn dfv|avn avo avv]; cbn [print_def wf_sdef] in *.
     - exists kw_version, 32, (34 :: s ++ [34; 10] ++ rest). rewrite <- app_assoc. cbn [app]. rewrite <- app_assoc.
       split; [reflexivity|]. split; [exact is_ident_version|]. split; [unfold ascii; lia|]. split; [reflexivity|].
       split; [|reflexivity]. rewrite app_length. cbn [length]. lia.
@@ -1743,6 +2642,31 @@ Section RT.
       split; [reflexivity|]. split; [exact (ident_valid_shape kw Hk)|]. split; [assumption|]. split; [assumption|].
       split; [rewrite !app_length; cbn [length]; lia|].
       unfold dispatching in Hd. repeat (apply orb_false_iff in Hd; destruct Hd as [Hd ?]). assumption.
+    - assert (E : exists R, print_obj co ++ 32 :: 34 :: ct ++ [34; 32; 59; 10] = 32 :: R) by (destruct co; cbn; eexists; reflexivity).
+      destruct E as (R & E). exists kw_comment, 32, (R ++ rest). rewrite <- app_assoc. rewrite E.
+      split; [reflexivity|]. split; [match goal with |- is_ident ?k => exact (ident_valid_shape k eq_refl) end|]. split; [unfold ascii; lia|]. split; [reflexivity|].
+      split; [|reflexivity]. rewrite app_length. cbn [length]. lia.
+    - eexists kw_value_descriptions, 32, _. rewrite <- app_assoc. cbn [app].
+      split; [reflexivity|]. split; [match goal with |- is_ident ?k => exact (ident_valid_shape k eq_refl) end|]. split; [unfold ascii; lia|]. split; [reflexivity|].
+      split; [|reflexivity]. rewrite app_length. cbn [length]. lia.
+    - eexists kw_value_descriptions, 32, _. rewrite <- app_assoc. cbn [app].
+      split; [reflexivity|]. split; [match goal with |- is_ident ?k => exact (ident_valid_shape k eq_refl) end|]. split; [unfold ascii; lia|]. split; [reflexivity|].
+      split; [|reflexivity]. rewrite app_length. cbn [length]. lia.
+    - eexists kw_value_table, 32, _. rewrite <- app_assoc. cbn [app].
+      split; [reflexivity|]. split; [match goal with |- is_ident ?k => exact (ident_valid_shape k eq_refl) end|]. split; [unfold ascii; lia|]. split; [reflexivity|].
+      split; [|reflexivity]. rewrite app_length. cbn [length]. lia.
+    - eexists kw_signal_value_type, 32, _. rewrite <- app_assoc. cbn [app].
+      split; [reflexivity|]. split; [match goal with |- is_ident ?k => exact (ident_valid_shape k eq_refl) end|]. split; [unfold ascii; lia|]. split; [reflexivity|].
+      split; [|reflexivity]. rewrite app_length. cbn [length]. lia.
+    - eexists kw_message_transmitters, 32, _. rewrite <- app_assoc. cbn [app].
+      split; [reflexivity|]. split; [match goal with |- is_ident ?k => exact (ident_valid_shape k eq_refl) end|]. split; [unfold ascii; lia|]. split; [reflexivity|].
+      split; [|reflexivity]. rewrite app_length. cbn [length]. lia.
+    - eexists kw_envvar, 32, _. rewrite <- app_assoc. cbn [app].
+      split; [reflexivity|]. split; [match goal with |- is_ident ?k => exact (ident_valid_shape k eq_refl) end|]. split; [unfold ascii; lia|]. split; [reflexivity|].
+      split; [|reflexivity]. rewrite app_length. cbn [length]. lia.
+    - eexists kw_envvar_data, 32, _. rewrite <- app_assoc. cbn [app].
+      split; [reflexivity|]. split; [match goal with |- is_ident ?k => exact (ident_valid_shape k eq_refl) end|]. split; [unfold ascii; lia|]. split; [reflexivity|].
+      split; [|reflexivity]. rewrite app_length. cbn [length]. lia.
   Qed.
 
   Lemma rest_top_print : forall ds, Forall wf_sdef ds -> (length (print ds) + 4 <= F)%nat -> rest_top (print ds).
@@ -1772,6 +2696,12 @@ Section RT.
     cbn [print_def] in HF; repeat (rewrite app_length in HF || cbn [length] in HF);
     unfold kw_version, kw_bit_timing, kw_nodes, kw_message in *; cbn [length] in *; lia.
 
+  Ltac fuel2 HF :=
+    let H := fresh in
+    pose proof HF as H; cbn [print_def] in H; repeat (rewrite app_length in H || cbn [length] in H);
+    unfold kw_comment, kw_value_descriptions, kw_value_table, kw_signal_value_type, kw_message_transmitters, kw_envvar,
+      kw_envvar_data in *; cbn [length] in *; lia.
+
   (** one definition: from the canonical state at its keyword, the dispatched parser returns its
       denotation and leaves the parser ready at the next line *)
   Lemma step_def : forall d rest defs line off, wf_sdef d -> rest_top rest ->
@@ -1782,7 +2712,7 @@ Section RT.
                        /\ Ready (line + def_lines d) (off + blen (print_def d)) rest st2.
   Proof.
     intros d rest defs line off Hw Htop HF st (_ & HR). pose proof (rest_top_ok rest Htop) as Hok.
-    destruct d as [s|[[b [[b1 b2]|]]|]|ns|mi mn msz mtx sigs|kw ts|co ct|[vi|] vn vvs|tn tvs|svi svn svc svt|xi xtxs|en et emn emx eu einit ei eacc enode enodes|dn dsz]; cbn [wf_sdef elab_def] in *.
+    destruct d as [s|[[b [[b1 b2]|]]|]|ns|mi mn msz mtx sigs|kw ts|co ct|[vi|] vn vvs|tn tvs|svi svn svc svt|xi xtxs|en et emn emx eu einit ei eacc enode enodes|dn dsz|ao an ab|dfn dfv|avn avo avv]; cbn [wf_sdef elab_def] in *.
     - (* VERSION *)
       destruct (HR kw_version 32 (34 :: s ++ 34 :: 10 :: rest)) as (ll & Ep);
         [cbn [print_def]; rewrite <- app_assoc; cbn [app]; rewrite <- app_assoc; reflexivity
@@ -1831,6 +2761,63 @@ Section RT.
         [destruct (ident_valid_shape kw Hk) as (? & ? & -> & _); fuel HF|].
       eexists kw, _, st2. split; [exact Ep|]. split; [apply peek_keyword_canon|]. split; [|exact HR2].
       rewrite dispatch_unknown by assumption. exact E.
+    - (* CM_ *)
+      destruct (print_def_head (SComment co ct) rest Hw) as (kw0 & c0 & R & ER & _).
+      assert (ER' : exists R', print_def (SComment co ct) ++ rest = kw_comment ++ 32 :: R').
+      { cbn [print_def]. rewrite <- app_assoc. destruct co; cbn [print_obj app]; eexists; reflexivity. }
+      clear kw0 c0 R ER. destruct ER' as (R & ER).
+      destruct (HR kw_comment 32 R ER (ident_valid_shape kw_comment eq_refl)) as (ll & Ep); [unfold ascii; lia|reflexivity|fuel2 HF|].
+      destruct (step_comment co ct rest R line off ll Hw ER ltac:(lia)) as (st2 & E & HR2).
+      eexists kw_comment, _, st2. split; [exact Ep|]. split; [apply peek_keyword_canon|]. split; [exact E|exact HR2].
+    - (* VAL_ signal form *)
+      assert (ER : exists R, print_def (SValues (Some vi) vn vvs) ++ rest = kw_value_descriptions ++ 32 :: R)
+        by (cbn [print_def]; rewrite <- app_assoc; cbn [app]; eexists; reflexivity).
+      destruct ER as (R & ER).
+      destruct (HR kw_value_descriptions 32 R ER (ident_valid_shape kw_value_descriptions eq_refl)) as (ll & Ep); [unfold ascii; lia|reflexivity|fuel2 HF|].
+      destruct (step_values (Some vi) vn vvs rest R line off ll Hw ER ltac:(lia)) as (st2 & E & HR2).
+      eexists kw_value_descriptions, _, st2. split; [exact Ep|]. split; [apply peek_keyword_canon|]. split; [exact E|exact HR2].
+    - (* VAL_ environment variable form *)
+      assert (ER : exists R, print_def (SValues None vn vvs) ++ rest = kw_value_descriptions ++ 32 :: R)
+        by (cbn [print_def]; rewrite <- app_assoc; cbn [app]; eexists; reflexivity).
+      destruct ER as (R & ER).
+      destruct (HR kw_value_descriptions 32 R ER (ident_valid_shape kw_value_descriptions eq_refl)) as (ll & Ep); [unfold ascii; lia|reflexivity|fuel2 HF|].
+      destruct (step_values None vn vvs rest R line off ll Hw ER ltac:(lia)) as (st2 & E & HR2).
+      eexists kw_value_descriptions, _, st2. split; [exact Ep|]. split; [apply peek_keyword_canon|]. split; [exact E|exact HR2].
+    - (* VAL_TABLE_ *)
+      assert (ER : exists R, print_def (SValueTable tn tvs) ++ rest = kw_value_table ++ 32 :: R)
+        by (cbn [print_def]; rewrite <- app_assoc; cbn [app]; eexists; reflexivity).
+      destruct ER as (R & ER).
+      destruct (HR kw_value_table 32 R ER (ident_valid_shape kw_value_table eq_refl)) as (ll & Ep); [unfold ascii; lia|reflexivity|fuel2 HF|].
+      destruct (step_value_table tn tvs rest R line off ll Hw ER ltac:(lia)) as (st2 & E & HR2).
+      eexists kw_value_table, _, st2. split; [exact Ep|]. split; [apply peek_keyword_canon|]. split; [exact E|exact HR2].
+    - (* SIG_VALTYPE_ *)
+      assert (ER : exists R, print_def (SSigValType svi svn svc svt) ++ rest = kw_signal_value_type ++ 32 :: R)
+        by (cbn [print_def]; rewrite <- app_assoc; cbn [app]; eexists; reflexivity).
+      destruct ER as (R & ER).
+      destruct (HR kw_signal_value_type 32 R ER (ident_valid_shape kw_signal_value_type eq_refl)) as (ll & Ep); [unfold ascii; lia|reflexivity|fuel2 HF|].
+      destruct (step_sig_valtype svi svn svc svt rest R line off ll Hw ER ltac:(lia)) as (st2 & E & HR2).
+      eexists kw_signal_value_type, _, st2. split; [exact Ep|]. split; [apply peek_keyword_canon|]. split; [exact E|exact HR2].
+    - (* BO_TX_BU_ *)
+      assert (ER : exists R, print_def (SMsgTx xi xtxs) ++ rest = kw_message_transmitters ++ 32 :: R)
+        by (cbn [print_def]; rewrite <- app_assoc; cbn [app]; eexists; reflexivity).
+      destruct ER as (R & ER).
+      destruct (HR kw_message_transmitters 32 R ER (ident_valid_shape kw_message_transmitters eq_refl)) as (ll & Ep); [unfold ascii; lia|reflexivity|fuel2 HF|].
+      destruct (step_msgtx xi xtxs rest R line off ll Hw ER ltac:(lia)) as (st2 & E & HR2).
+      eexists kw_message_transmitters, _, st2. split; [exact Ep|]. split; [apply peek_keyword_canon|]. split; [exact E|exact HR2].
+    - (* EV_ *)
+      assert (ER : exists R, print_def (SEnvVar en et emn emx eu einit ei eacc enode enodes) ++ rest = kw_envvar ++ 32 :: R)
+        by (cbn [print_def]; rewrite <- app_assoc; cbn [app]; eexists; reflexivity).
+      destruct ER as (R & ER).
+      destruct (HR kw_envvar 32 R ER (ident_valid_shape kw_envvar eq_refl)) as (ll & Ep); [unfold ascii; lia|reflexivity|fuel2 HF|].
+      destruct (step_envvar en et emn emx eu einit ei eacc enode enodes rest R line off ll Hw ER ltac:(lia)) as (st2 & E & HR2).
+      eexists kw_envvar, _, st2. split; [exact Ep|]. split; [apply peek_keyword_canon|]. split; [exact E|exact HR2].
+    - (* ENVVAR_DATA_ *)
+      assert (ER : exists R, print_def (SEnvVarData dn dsz) ++ rest = kw_envvar_data ++ 32 :: R)
+        by (cbn [print_def]; rewrite <- app_assoc; cbn [app]; eexists; reflexivity).
+      destruct ER as (R & ER).
+      destruct (HR kw_envvar_data 32 R ER (ident_valid_shape kw_envvar_data eq_refl)) as (ll & Ep); [unfold ascii; lia|reflexivity|fuel2 HF|].
+      destruct (step_envvar_data dn dsz rest R line off ll Hw ER ltac:(lia)) as (st2 & E & HR2).
+      eexists kw_envvar_data, _, st2. split; [exact Ep|]. split; [apply peek_keyword_canon|]. split; [exact E|exact HR2].
   Qed.
 
   Lemma parse_loop_print : forall ds f defs line off st,
@@ -1883,7 +2870,7 @@ Proof.
   induction ds as [|d ds IH]; intros Hw; cbn [print length]; [lia|]. inversion Hw as [|? ? Hd Hw']; subst.
   rewrite app_length. specialize (IH Hw').
   assert (1 <= length (print_def d))%nat.
-  { destruct d as [s|[[b [[b1 b2]|]]|]|ns|mi mn msz mtx sigs|kw ts|co ct|[vi|] vn vvs|tn tvs|svi svn svc svt|xi xtxs|en et emn emx eu einit ei eacc enode enodes|dn dsz]; cbn [print_def]; rewrite !app_length; cbn [length]; lia. }
+  { destruct d as [s|[[b [[b1 b2]|]]|]|ns|mi mn msz mtx sigs|kw ts|co ct|[vi|] vn vvs|tn tvs|svi svn svc svt|xi xtxs|en et emn emx eu einit ei eacc enode enodes|dn dsz|ao an ab|dfn dfv|avn avo avv]; cbn [print_def]; rewrite !app_length; cbn [length]; lia. }
   lia.
 Qed.
 
@@ -1961,3 +2948,38 @@ Proof.
   all: try discriminate.
   all: try (repeat constructor).
 Qed.
+
+(** a second well-formed source file, with the one-line kinds that end in " ;" *)
+Definition sample2_ds : list sdef :=
+  [ SComment (ObjSignal [49] [83]) [104; 105];                                  (* CM_ SG_ 1 S "hi" ; *)
+    SComment ObjNone [];                                                          (* CM_ "" ; *)
+    SValues (Some [49]) [83] [({| n_neg := true; n_digits := [49] |}, [97]); ({| n_neg := false; n_digits := [50] |}, [])];
+                                                                                  (* VAL_ 1 S -1 "a" 2 "" ; *)
+    SValues None [69] [];                                                         (* VAL_ E ; *)
+    SValueTable [84] [({| n_neg := false; n_digits := [48] |}, [122])];           (* VAL_TABLE_ T 0 "z" ; *)
+    SSigValType [49] [83] true [49];                                              (* SIG_VALTYPE_ 1 S : 1 ; *)
+    SSigValType [49] [83] false [50];                                             (* SIG_VALTYPE_ 1 S 2 ; *)
+    SMsgTx [49] [([65], true); ([66], false)];                                    (* BO_TX_BU_ 1 : A , B ; *)
+    SEnvVar [69] [49] {| n_neg := false; n_digits := [48] |} {| n_neg := false; n_digits := [57] |} [86]
+            {| n_neg := true; n_digits := [51] |} [55] 2 [78] [[77]];              (* EV_ E : 1 [ 0 | 9 ] "V" -3 7 DUMMY_NODE_VECTOR2 N , M ; *)
+    SEnvVarData [69] [56] ].                                                      (* ENVVAR_DATA_ E : 8 ; *)
+
+Lemma sample2_ds_wf : Forall wf_sdef sample2_ds.
+Proof.
+  assert (Hp : forall c, 32 <= c < 127 -> c <> 34 -> c <> 92 -> plain_char c) by (intros; repeat split; lia).
+  assert (Hd : forall d0, is_decimal d0 = true -> wf_digits [d0]) by (intros d0 ?; exists d0, []; auto).
+  assert (Hu : forall d0, is_decimal d0 = true -> wf_uint [d0]).
+  { intros d0 H. split; [auto|]. rewrite uint_value_digit. unfold is_decimal in H. apply andb_true_iff in H. lia. }
+  assert (Hn : forall neg d0, is_decimal d0 = true -> parse_float [d0] <> None -> wf_num {| n_neg := neg; n_digits := [d0] |})
+    by (intros; split; cbn; auto).
+  assert (Hm : wf_msgid [49]) by (split; [apply Hu; reflexivity|reflexivity]).
+  assert (He : forall d mx, 48 <= d <= 48 + mx -> wf_enum [d] mx) by (intros d mx ?; exists d; auto).
+  unfold sample2_ds. repeat constructor; cbn [wf_sdef wf_obj wf_value fst snd]; try exact Hm; try reflexivity;
+    try (apply Hp; lia); try (apply Hu; reflexivity); try (apply He; lia);
+    try (apply Hn; [reflexivity|vm_compute; discriminate]); try lia.
+  all: repeat constructor; try (apply Hp; lia); try (apply Hn; [reflexivity|vm_compute; discriminate]); try reflexivity.
+Qed.
+
+(** the printed text of the second sample, for the record *)
+Lemma sample2_parses : forall il id, parse_bytes il id (print sample2_ds) = Ok (elaborate sample2_ds).
+Proof. intros. apply parse_print_partial. exact sample2_ds_wf. Qed.
